@@ -1,12 +1,24 @@
-(** C08, scanning primitives: [lowest_mapped] is sound — the address it returns
-    lies in the range, is mapped by the architectural walk (C02's [arch_walk]),
-    and the returned step holds its translation.  Generic in the PTE format:
-    it uses only the per-format simulation [sim] of C02 (proved there for
-    eleven formats).
+(** C08, scanning primitives: the specifications of [lowest_mapped],
+    [lowest_unmapped], [highest_mapped] and [highest_linear] over C02's
+    architectural walk of the table tree ([arch_levels]).  Generic in the PTE
+    format: only the per-format simulation [sim] of C02 is used (proved there
+    for eleven formats); huge-page directories are excluded.
 
-    Invariant of the scan: the step is exactly the state of the walk of [*addr]
+    - [lowest_mapped]: the answer is the least mapped address of the range
+      (it is mapped, the step holds its translation, everything before it is
+      unmapped); "not present" means nothing in the range is mapped.
+    - [lowest_unmapped]: the least unmapped address; everything before it is mapped.
+    - [highest_mapped]: the greatest mapped address, scanning down.
+    - [highest_linear]: the relation [lin_runs] (mapped runs whose first
+      address has the offset asked for), and the closed form for a single run.
+
+    Invariant of the scans: the step is exactly the state of the walk of [*addr]
     that has descended to the current table ([s_idx] is the index split of
-    [*addr], [s_base] the table the architectural walk of [*addr] is at). *)
+    [*addr], [s_base] the table the architectural walk of [*addr] is at);
+    skipping an entry is the index split of the first address of the next
+    entry ([split_next_entry]) resp. of the last address of the previous one
+    ([split_prev_entry]).  The loops share their tails ([after_up],
+    [after_down]); the postconditions are instances of [gpost] / [gpost_d]. *)
 From Coq Require Import NArith ZArith List Bool Lia.
 From KdV Require Import Base.Wrap64 Xlat.Step Xlat.ArchSpec Xlat.XBits Xlat.WalkProofs Sys.ScanModel.
 Import ListNotations.
@@ -145,6 +157,163 @@ Proof.
         -- rewrite !split_fields_nth by lia. apply field_next_above; try lia; exact Hf.
 Qed.
 
+(** * Arithmetic of "the previous entry of the level-[l] table" ([highest_mapped]) *)
+
+Lemma div_pred_mul X k : 1 <= X -> (X * 2^k - 1) / 2^k = X - 1.
+Proof.
+  intro HX. pose proof (pow2_pos k). symmetry. apply N.div_unique with (r := 2^k - 1); [lia|].
+  replace X with (X - 1 + 1) at 1 by lia. rewrite N.mul_add_distr_r, N.mul_1_l. lia.
+Qed.
+
+Lemma mod_pred_mul Y k : 1 <= Y -> (Y * 2^k - 1) mod 2^k = 2^k - 1.
+Proof.
+  intro HY. pose proof (pow2_pos k). symmetry. apply N.mod_unique with (q := Y - 1); [lia|].
+  replace Y with (Y - 1 + 1) at 1 by lia. rewrite N.mul_add_distr_r, N.mul_1_l. lia.
+Qed.
+
+Lemma mod_pred q n : 1 <= q mod 2^n -> (q - 1) mod 2^n = q mod 2^n - 1.
+Proof.
+  intro H. pose proof (N.mod_upper_bound q (2^n) (pow2_nz _)).
+  pose proof (N.div_mod q (2^n) (pow2_nz _)).
+  symmetry. apply N.mod_unique with (q := q / 2^n); [lia|].
+  set (m := q mod 2^n) in *. set (d := q / 2^n) in *. set (P := 2^n) in *. lia.
+Qed.
+
+Lemma div_pred_same q d f : f <= d -> 1 <= q mod 2^f -> (q - 1) / 2^d = q / 2^d.
+Proof.
+  intros Hfd Hq.
+  assert (Hm : 1 <= q mod 2^d).
+  { replace d with (f + (d - f)) by lia. rewrite N.pow_add_r.
+    rewrite N.mod_mul_r by apply pow2_nz.
+    apply N.le_trans with (q mod 2^f); [exact Hq|]. apply N.le_add_r. }
+  pose proof (N.mod_upper_bound q (2^d) (pow2_nz _)).
+  pose proof (N.div_mod q (2^d) (pow2_nz _)).
+  symmetry. apply N.div_unique with (r := q mod 2^d - 1); [lia|].
+  set (m := q mod 2^d) in *. set (e := q / 2^d) in *. set (P := 2^d) in *. lia.
+Qed.
+
+Lemma field_ge1_div fs va l : 1 <= field fs l va -> 1 <= va / 2^(lo fs l).
+Proof.
+  unfold field, bits. intro H.
+  pose proof (N.mod_le (va / 2^(lo fs l)) (2^(nth l fs 0)) (pow2_nz _)). lia.
+Qed.
+
+Lemma field_prev_below fs va l j :
+  (j < l)%nat -> (l <= length fs)%nat -> 1 <= va / 2^(lo fs l) ->
+  field fs j (va / 2^(lo fs l) * 2^(lo fs l) - 1) = 2^(nth j fs 0) - 1.
+Proof.
+  intros Hj Hl Hq. unfold field, bits.
+  assert (Hlo : lo fs (S j) <= lo fs l) by (apply lo_mono; lia).
+  rewrite lo_S in Hlo by lia.
+  set (q := va / 2^(lo fs l)) in *.
+  replace (lo fs l) with (lo fs j + (nth j fs 0 + (lo fs l - lo fs j - nth j fs 0))) by lia.
+  rewrite !N.pow_add_r. rewrite (N.mul_comm (2^(lo fs j))), N.mul_assoc.
+  set (C := 2^(lo fs l - lo fs j - nth j fs 0)).
+  assert (HC : 0 < C) by apply pow2_pos.
+  pose proof (pow2_pos (nth j fs 0)) as HB.
+  rewrite div_pred_mul by nia.
+  rewrite (N.mul_comm (2^(nth j fs 0))), N.mul_assoc.
+  apply mod_pred_mul. nia.
+Qed.
+
+Lemma div_prev_above fs va l d :
+  1 <= field fs l va -> nth l fs 0 <= d ->
+  (va / 2^(lo fs l) * 2^(lo fs l) - 1) / 2^(lo fs l + d) = va / 2^(lo fs l + d).
+Proof.
+  intros Hf Hd. pose proof (field_ge1_div _ _ _ Hf) as Hq.
+  rewrite !N.pow_add_r, <- !N.div_div by apply pow2_nz.
+  rewrite div_pred_mul by exact Hq.
+  apply div_pred_same with (f := nth l fs 0); [exact Hd|exact Hf].
+Qed.
+
+Lemma field_prev_at fs va l :
+  1 <= field fs l va ->
+  field fs l (va / 2^(lo fs l) * 2^(lo fs l) - 1) = field fs l va - 1.
+Proof.
+  intro Hf. pose proof (field_ge1_div _ _ _ Hf) as Hq. unfold field, bits in *.
+  rewrite div_pred_mul by exact Hq. now apply mod_pred.
+Qed.
+
+Lemma field_prev_above fs va l j :
+  (l < j)%nat -> (j < length fs)%nat -> 1 <= field fs l va ->
+  field fs j (va / 2^(lo fs l) * 2^(lo fs l) - 1) = field fs j va.
+Proof.
+  intros Hlj Hj Hf. unfold field, bits.
+  assert (Hlo : lo fs (S l) <= lo fs j) by (apply lo_mono; lia).
+  rewrite lo_S in Hlo by lia.
+  replace (lo fs j) with (lo fs l + (lo fs j - lo fs l)) by lia.
+  rewrite div_prev_above by (try exact Hf; lia). reflexivity.
+Qed.
+
+Lemma ones_below_spec : forall n fs idx,
+  all_lt64 fs = true -> (n <= length fs)%nat ->
+  exists idx', ones_below fs idx n = Some idx' /\ length idx' = length idx /\
+    forall j, nthN idx' j = if ((j <? n) && (j <? length idx))%nat then 2^(nth j fs 0) - 1 else nthN idx j.
+Proof.
+  induction n as [|n IH]; intros fs idx Hlt Hn.
+  - exists idx. cbn [ones_below]. split; [destruct idx; reflexivity|]. split; [reflexivity|]. intro j. reflexivity.
+  - destruct fs as [|b fs']; [cbn [length] in Hn; lia|]. cbn [length] in Hn.
+    cbn [all_lt64 forallb] in Hlt. apply andb_true_iff in Hlt. destruct Hlt as [Hb Hlt'].
+    destruct idx as [|h t].
+    + exists []. cbn [ones_below]. repeat split. intro j. cbn [length]. rewrite andb_false_r. reflexivity.
+    + cbn [ones_below tl]. rewrite Hb.
+      destruct (IH fs' t Hlt' ltac:(lia)) as (t' & Et & Hlen & Hnth). rewrite Et.
+      eexists. split; [reflexivity|]. split; [cbn [length]; now rewrite Hlen|].
+      apply N.ltb_lt in Hb.
+      assert (Hw : wsub (wshl 1 b) 1 = 2^b - 1).
+      { pose proof (pow2_lt_mono b 64 Hb). pose proof (pow2_pos b).
+        rewrite wshl_small by lia. rewrite N.mul_1_l. apply wsub_le; [lia|]. rewrite W_pow. lia. }
+      intros [|j]; unfold nthN; cbn [nth length].
+      * exact Hw.
+      * change (nth j t' 0) with (nthN t' j). rewrite Hnth.
+        change (S j <? S n)%nat with (j <? n)%nat. change (S j <? S (length t))%nat with (j <? length t)%nat.
+        reflexivity.
+Qed.
+
+(** the index vector after "all ones in the lower indices, decrement this one"
+    is the index split of the last address of the previous entry *)
+Lemma split_prev_entry fs va l idx' :
+  (l < length fs)%nat -> 1 <= field fs l va ->
+  length idx' = S (length fs) ->
+  (forall j, nthN idx' j = if ((j <? l) && (j <? S (length fs)))%nat
+                           then 2^(nth j fs 0) - 1 else nthN (split_fields fs va) j) ->
+  split_fields fs (va / 2^(lo fs l) * 2^(lo fs l) - 1) = set_nth idx' l (field fs l va - 1).
+Proof.
+  intros Hl Hf Hlen Hnth. pose proof (field_ge1_div _ _ _ Hf) as Hq.
+  apply nthN_ext.
+  - rewrite length_set_nth, Hlen, split_fields_length. reflexivity.
+  - intros j Hj. rewrite split_fields_length in Hj.
+    rewrite nthN_set_nth by (rewrite Hlen; lia).
+    destruct (Nat.eqb_spec j l) as [->|Hne].
+    + rewrite split_fields_nth by lia. now apply field_prev_at.
+    + rewrite Hnth. destruct (Nat.ltb_spec j l) as [Hjl|Hjl]; cbn [andb].
+      * destruct (Nat.ltb_spec j (S (length fs))); [|lia].
+        rewrite split_fields_nth by lia. apply field_prev_below; try lia.
+      * destruct (Nat.eq_dec j (length fs)) as [->|Hjn].
+        -- rewrite !split_fields_last.
+           assert (Hlo : lo fs (S l) <= total fs) by apply lo_le_total.
+           rewrite lo_S in Hlo by lia.
+           replace (total fs) with (lo fs l + (total fs - lo fs l)) by lia.
+           apply div_prev_above; [exact Hf|lia].
+        -- rewrite !split_fields_nth by lia. apply field_prev_above; try lia; exact Hf.
+Qed.
+
+(** an address the architectural walk produces is a 64-bit value *)
+Lemma arch_levels_lt readmem af tgt mask fs va : forall l tas tbase a p,
+  arch_levels readmem af tgt mask fs va l tas tbase = (OK, Some (a, p)) -> p < 2^64.
+Proof.
+  assert (Hw : forall x a p, (OK, Some (tgt, w x)) = (OK, Some (a, p)) -> p < 2^64).
+  { intros x a p H. injection H as _ <-. rewrite <- W_pow. apply w_lt. }
+  induction l as [|l IH]; intros tas tbase a p; cbn [arch_levels].
+  - apply Hw.
+  - destruct (rd_entry _ _ _ _ _) as [pte|e]; [|discriminate].
+    destruct (af_decode af tgt fs (S l) pte va) as [ta tb|b sz|ta tb sh| |]; try discriminate.
+    + apply IH.
+    + apply Hw.
+    + destruct (rd_entry _ _ _ _ _) as [hpte|e]; [|discriminate].
+      destruct (af_decode af tgt fs 1 hpte va); try discriminate; apply Hw.
+Qed.
+
 Section ScanSound.
 Variable readmem : aspace -> N -> rdres.
 Variable af : archfmt.
@@ -243,19 +412,39 @@ Hypothesis Hpos : forall j, (j < length fs)%nat -> 1 <= nth j fs 0.
 
 Variable limit : N.
 
-(** first address after the span of the level-[l] entry that contains [a] *)
-Definition next_at (l : nat) (a : N) : N := w ((a / 2^(lo fs l) + 1) * 2^(lo fs l)).
+(** first address after the span of the level-[l] entry that contains [a]
+    ([next_nat]: as a number, possibly 2^64; [next_at]: as the C code computes it) *)
+Definition next_nat (l : nat) (a : N) : N := (a / 2^(lo fs l) + 1) * 2^(lo fs l).
+Definition next_at (l : nat) (a : N) : N := w (next_nat l a).
 
-(** what a [_tbl] worker (table level [l], entered with [*addr = a0], table
-    [(tas, tbase)]) may answer *)
-Definition tbl_post (l : nat) (a0 : N) (tas : aspace) (tbase : N) (res : scanres) : Prop :=
+Notation NP := (NOTPRESENT, @None (aspace * N)).
+
+(** the shape of what an upward [_tbl] worker (table level [l], entered with
+    [*addr = a0]) may answer: [P] holds of every address it has passed over,
+    [Q] of the address it stops at *)
+Definition gpost (P : N -> Prop) (Q : step -> N -> Prop) (l : nat) (a0 : N) (res : scanres) : Prop :=
   match res with
   | (OK, s', r) =>
       a0 <= r /\ r <= limit /\ r < 2^64 /\ r / 2^(lo fs (S l)) = a0 / 2^(lo fs (S l)) /\
-      s_as s' = tgt /\ W r l tas tbase = (OK, Some (tgt, s_base s'))
-  | (NOTPRESENT, _, a2) => limit < a2 \/ a2 = next_at (S l) a0
+      Q s' r /\ (forall a, a0 <= a -> a < r -> P a)
+  | (NOTPRESENT, _, a2) =>
+      a2 < 2^64 /\ a2 <= next_nat (S l) a0 /\ (limit < a2 \/ a2 = next_at (S l) a0) /\
+      (forall a, a0 <= a -> a <= limit -> a / 2^(lo fs (S l)) = a0 / 2^(lo fs (S l)) -> P a)
   | _ => True
   end.
+
+Definition mapped (l : nat) (tas : aspace) (tbase : N) (a : N) : Prop :=
+  exists p, W a l tas tbase = (OK, Some (tgt, p)).
+Definition unmapped (l : nat) (tas : aspace) (tbase : N) (a : N) : Prop :=
+  W a l tas tbase = NP.
+
+(** [lowest_mapped_tbl]: stops at a mapped address, has passed over unmapped ones *)
+Definition tbl_post (l : nat) (a0 : N) (tas : aspace) (tbase : N) : scanres -> Prop :=
+  gpost (unmapped l tas tbase)
+        (fun s' r => s_as s' = tgt /\ W r l tas tbase = (OK, Some (tgt, s_base s'))) l a0.
+(** [lowest_unmapped_tbl]: the other way round *)
+Definition tbl_post_u (l : nat) (a0 : N) (tas : aspace) (tbase : N) : scanres -> Prop :=
+  gpost (mapped l tas tbase) (fun _ r => unmapped l tas tbase r) l a0.
 
 Lemma lo_lt_64 l : (l < length fs)%nat -> lo fs l < 64.
 Proof.
@@ -284,7 +473,178 @@ Proof.
   rewrite Hrd. rewrite (Hdecva _ _ r a), Hdec. replace (S l' - 1)%nat with l' by lia. reflexivity.
 Qed.
 
-Lemma lm_loop_sound (rec : step -> N -> scanres) l tas tbase :
+Lemma W_entry_np r a l tas tbase : (1 <= l)%nat ->
+  r / 2^(lo fs l) = a / 2^(lo fs l) ->
+  (rd_entry readmem af mask tas (w (tbase + field fs l a * af_ptesz af)) = RdErr NOTPRESENT \/
+   exists pte, rd_entry readmem af mask tas (w (tbase + field fs l a * af_ptesz af)) = RdOk pte /\
+               af_decode af tgt fs l pte a = DNotPresent) ->
+  W r l tas tbase = NP.
+Proof.
+  intros Hl Hra H. destruct l as [|l']; [lia|]. cbn [arch_levels].
+  rewrite (same_fields_above (S l') r a (S l')) by (auto; lia).
+  destruct H as [-> | (pte & -> & Hd)]; [reflexivity|]. now rewrite (Hdecva _ _ r a), Hd.
+Qed.
+
+(** arithmetic of spans *)
+Lemma lt_next_nat l a : a < next_nat l a.
+Proof.
+  unfold next_nat. pose proof (N.div_mod a (2^(lo fs l)) (pow2_nz _)).
+  pose proof (N.mod_upper_bound a (2^(lo fs l)) (pow2_nz _)). nia.
+Qed.
+
+Lemma in_entry_below_next l a x : a <= x -> x < next_nat l a -> x / 2^(lo fs l) = a / 2^(lo fs l).
+Proof.
+  intros H1 H2. unfold next_nat in H2. apply N.le_antisymm.
+  - assert (x / 2^(lo fs l) < a / 2^(lo fs l) + 1); [|lia].
+    apply N.div_lt_upper_bound; [apply pow2_nz|]. lia.
+  - apply N.div_le_mono; [apply pow2_nz|exact H1].
+Qed.
+
+Lemma not_in_entry_ge_next l a x : a <= x -> x / 2^(lo fs l) <> a / 2^(lo fs l) -> next_nat l a <= x.
+Proof.
+  intros H1 H2. unfold next_nat.
+  assert (Hm : a / 2^(lo fs l) <= x / 2^(lo fs l)) by (apply N.div_le_mono; [apply pow2_nz|exact H1]).
+  apply N.le_trans with (x / 2^(lo fs l) * 2^(lo fs l)).
+  - apply N.mul_le_mono_r. lia.
+  - rewrite N.mul_comm. apply N.mul_div_le, pow2_nz.
+Qed.
+
+Lemma div_sandwich K a x r : a <= x -> x <= r -> r / 2^K = a / 2^K -> x / 2^K = a / 2^K.
+Proof.
+  intros H1 H2 H3. apply N.le_antisymm.
+  - rewrite <- H3. apply N.div_le_mono; [apply pow2_nz|exact H2].
+  - apply N.div_le_mono; [apply pow2_nz|exact H1].
+Qed.
+
+Lemma span_up l a x : (l < length fs)%nat ->
+  x / 2^(lo fs l) = a / 2^(lo fs l) -> x / 2^(lo fs (S l)) = a / 2^(lo fs (S l)).
+Proof.
+  intros Hl H. rewrite lo_S by exact Hl. rewrite !N.pow_add_r, <- !N.div_div by apply pow2_nz. now rewrite H.
+Qed.
+
+Lemma next_nat_same l a b : a / 2^(lo fs l) = b / 2^(lo fs l) -> next_nat l a = next_nat l b.
+Proof. intro H. unfold next_nat. now rewrite H. Qed.
+
+Lemma next_nat_up l a : (l < length fs)%nat -> next_nat l a <= next_nat (S l) a.
+Proof.
+  intro Hl. unfold next_nat. rewrite lo_S by exact Hl. rewrite N.pow_add_r, <- N.div_div by apply pow2_nz.
+  set (q := a / 2^(lo fs l)).
+  pose proof (N.div_mod q (2^(nth l fs 0)) (pow2_nz _)).
+  pose proof (N.mod_upper_bound q (2^(nth l fs 0)) (pow2_nz _)).
+  pose proof (pow2_pos (lo fs l)). nia.
+Qed.
+
+Lemma w_le x : w x <= x.
+Proof. unfold w. apply N.mod_le, W_nz. Qed.
+
+(** skipping to the next entry of the table: the common tail of the upward loops *)
+Lemma after_up (P : N -> Prop) (Q : step -> N -> Prop) l (cont : step -> N -> scanres) mystep addr :
+  (1 <= l)%nat -> (l < length fs)%nat ->
+  at_level addr l mystep -> addr < 2^64 -> addr <= limit ->
+  (forall mystep' a2, at_level a2 l mystep' -> s_as mystep' = s_as mystep -> s_base mystep' = s_base mystep ->
+     a2 < 2^64 -> gpost P Q l a2 (cont mystep' a2)) ->
+  (forall st a2, limit < a2 ->
+     match cont st a2 with (NOTPRESENT, _, a2') => a2' = a2 | (OK, _, _) => False | _ => True end) ->
+  forall s2 a2, a2 < 2^64 -> a2 <= next_nat l addr -> (limit < a2 \/ a2 = next_at l addr) ->
+    (forall a, addr <= a -> a <= limit -> a / 2^(lo fs l) = addr / 2^(lo fs l) -> P a) ->
+    gpost P Q l addr
+      (let i := (s_remain mystep - 1)%nat in
+       let idx := zero_below (s_idx mystep) i in
+       let v := wadd (nthN idx i) 1 in
+       let mystep' := set_idx mystep (set_nth idx i v) in
+       if 2^(nth l fs 0) <=? v then (NOTPRESENT, s2, a2) else cont mystep' a2).
+Proof.
+  intros Hl1 Hl Hat Ha Hle IH Hguard.
+  pose proof Hat as (Hr & Hidx & Hes).
+  assert (Hf64 : nth l fs 0 < 64) by (apply all_lt64_nth; assumption).
+  pose proof (lo_lt_64 l Hl) as Hlo64.
+  assert (HS : lo fs (S l) = lo fs l + nth l fs 0) by now apply lo_S.
+  intros s2 a2 Hw2 Hle2 Ha2 HE. rewrite Hr. replace (S l - 1)%nat with l by lia. cbv zeta.
+  rewrite nthN_zero_below. rewrite Nat.ltb_irrefl. rewrite Hidx, split_fields_nth by exact Hl.
+  pose proof (field_lt fs l addr) as Hfl.
+  assert (Hv : wadd (field fs l addr) 1 = field fs l addr + 1).
+  { apply wadd_small. rewrite W_pow.
+    apply N.lt_le_trans with (2^(nth l fs 0) + 1); [lia|].
+    pose proof (pow2_lt_mono (nth l fs 0) 64 Hf64). lia. }
+  rewrite Hv.
+  destruct (N.leb_spec (2^(nth l fs 0)) (field fs l addr + 1)) as [Hfull|Hroom].
+  - (* last entry of the table *)
+    assert (Hfield : field fs l addr = 2^(nth l fs 0) - 1) by lia.
+    assert (Hnn : next_nat l addr = next_nat (S l) addr).
+    { unfold next_nat. rewrite HS, N.pow_add_r.
+      unfold field, bits in Hfield.
+      pose proof (N.div_mod (addr / 2^(lo fs l)) (2^(nth l fs 0)) (pow2_nz _)) as Hdm.
+      rewrite <- N.div_div by apply pow2_nz.
+      pose proof (pow2_pos (nth l fs 0)). pose proof (pow2_pos (lo fs l)). nia. }
+    cbn [gpost]. split; [exact Hw2|]. split; [lia|]. split.
+    { destruct Ha2 as [Hlim| ->]; [left; exact Hlim|right]. unfold next_at. now rewrite Hnn. }
+    intros a H1 H2 H3. apply HE; try assumption.
+    (* same table and the entry is the last one: same entry *)
+    apply N.le_antisymm.
+    + unfold field, bits in Hfield. rewrite HS in H3. rewrite !N.pow_add_r, <- !N.div_div in H3 by apply pow2_nz.
+      pose proof (N.div_mod (a / 2^(lo fs l)) (2^(nth l fs 0)) (pow2_nz _)) as D1.
+      pose proof (N.div_mod (addr / 2^(lo fs l)) (2^(nth l fs 0)) (pow2_nz _)) as D2.
+      pose proof (N.mod_upper_bound (a / 2^(lo fs l)) (2^(nth l fs 0)) (pow2_nz _)). nia.
+    + apply N.div_le_mono; [apply pow2_nz|exact H1].
+  - destruct Ha2 as [Hlim| ->].
+    + (* beyond the limit: the next iteration stops at once *)
+      match goal with |- gpost _ _ _ _ (cont ?st a2) => specialize (Hguard st a2 Hlim);
+        destruct (cont st a2) as [[st' s'] r] end.
+      destruct st'; try exact I; try contradiction. subst r. cbn [gpost]. split; [exact Hw2|].
+      split; [pose proof (next_nat_up l addr Hl); lia|]. split; [left; exact Hlim|].
+      intros a H1 H2 H3. apply HE; try assumption. apply in_entry_below_next; lia.
+    + assert (Hnw : next_nat l addr < 2^64).
+      { unfold next_nat.
+        assert (Hq : addr / 2^(lo fs l) + 1 <= 2^(64 - lo fs l)).
+        { assert (addr / 2^(lo fs l) < 2^(64 - lo fs l)); [|lia].
+          apply N.div_lt_upper_bound; [apply pow2_nz|]. rewrite <- N.pow_add_r.
+          replace (lo fs l + (64 - lo fs l)) with 64 by lia. exact Ha. }
+        destruct (N.eq_dec (addr / 2^(lo fs l) + 1) (2^(64 - lo fs l))) as [Heq|Hne].
+        - exfalso. unfold field, bits in Hroom.
+          assert (Hdiv : (2^(nth l fs 0) | 2^(64 - lo fs l))).
+          { exists (2^(64 - lo fs l - nth l fs 0)). rewrite <- N.pow_add_r. f_equal.
+            pose proof (lo_le_total fs (S l)). lia. }
+          destruct Hdiv as [c Hc].
+          assert (Hm : (addr / 2^(lo fs l) + 1) mod 2^(nth l fs 0) = 0)
+            by (rewrite Heq, Hc; apply N.mod_mul, pow2_nz).
+          rewrite <- N.add_mod_idemp_l in Hm by apply pow2_nz.
+          rewrite N.mod_small in Hm by exact Hroom. rewrite N.add_1_r in Hm. now apply N.neq_succ_0 in Hm.
+        - replace (2^64) with (2^(64 - lo fs l) * 2^(lo fs l))
+            by (rewrite <- N.pow_add_r; f_equal; lia).
+          apply N.mul_lt_mono_pos_r; [apply pow2_pos|lia]. }
+      assert (Hnext : next_at l addr = next_nat l addr) by (unfold next_at; now apply w_small').
+      rewrite Hnext.
+      set (a2 := next_nat l addr) in *.
+      assert (Hat2 : at_level a2 l (set_idx mystep
+                       (set_nth (zero_below (split_fields fs addr) l) l (field fs l addr + 1)))).
+      { split; [exact Hr|]. split; [|exact Hes]. cbn [set_idx s_idx].
+        symmetry. apply split_next_entry; [exact Hl|exact Hroom]. }
+      specialize (IH _ a2 Hat2 eq_refl eq_refl Hnw).
+      assert (Hsame : a2 / 2^(lo fs (S l)) = addr / 2^(lo fs (S l))).
+      { rewrite HS. unfold a2, next_nat. apply div_next_above; [exact Hroom|lia]. }
+      pose proof (lt_next_nat l addr) as Hlt2. fold a2 in Hlt2.
+      destruct (cont _ a2) as [[st s'] r].
+      destruct st; try exact I.
+      * destruct IH as (H0 & H1 & H2 & H3 & H4 & H6).
+        split; [lia|]. split; [exact H1|]. split; [exact H2|]. split; [now rewrite H3|].
+        split; [exact H4|].
+        intros a Ha1 Ha2'. destruct (N.lt_ge_cases a a2) as [Hb|Hb].
+        -- apply HE; try lia. apply in_entry_below_next; assumption.
+        -- apply H6; assumption.
+      * destruct IH as (Hw & H0 & H1 & H2). split; [exact Hw|]. split; [now rewrite <- (next_nat_same (S l) a2 addr Hsame)|].
+        split; [destruct H1 as [H1|H1]; [left; exact H1|right]; rewrite H1; unfold next_at;
+                now rewrite (next_nat_same (S l) a2 addr Hsame)|].
+        intros a Ha1 Ha2' Ha3. destruct (N.lt_ge_cases a a2) as [Hb|Hb].
+        -- apply HE; try assumption. apply in_entry_below_next; assumption.
+        -- apply H2; try assumption. now rewrite Hsame.
+Qed.
+
+Lemma skip_entry l addr :
+  wadd (N.lor addr (N.ones (lo fs l))) 1 <= next_nat l addr /\
+  wadd (N.lor addr (N.ones (lo fs l))) 1 = next_at l addr.
+Proof. unfold next_at, wadd. rewrite next_entry_addr. split; [apply w_le|reflexivity]. Qed.
+
+Lemma lm_loop_spec (rec : step -> N -> scanres) l tas tbase :
   (1 <= l)%nat -> (l < length fs)%nat ->
   (forall s1 a ta tb, (2 <= l)%nat -> at_level a (l - 1) s1 -> s_as s1 = ta -> s_base s1 = tb -> a < 2^64 ->
      tbl_post (l - 1) a ta tb (rec s1 a)) ->
@@ -294,87 +654,34 @@ Lemma lm_loop_sound (rec : step -> N -> scanres) l tas tbase :
     (lm_loop readmem m rec k limit (2^(nth l fs 0)) (N.ones (lo fs l)) mystep mystep addr).
 Proof.
   intros Hl1 Hl Hrec. induction k as [|k IH]; intros mystep addr Hat Has Hbs Ha; [exact I|].
-  cbn [lm_loop].
-  destruct (N.leb_spec addr limit) as [Hle|Hgt]; cbn [negb]; [|left; exact Hgt].
+  cbn [lm_loop]. unfold tbl_post.
+  destruct (N.leb_spec addr limit) as [Hle|Hgt]; cbn [negb].
+  2:{ cbn [gpost]. split; [exact Ha|]. split; [pose proof (lt_next_nat (S l) addr); lia|]. split; [left; exact Hgt|].
+      intros a H1 H2. lia. }
   pose proof Hat as (Hr & Hidx & Hes).
-  assert (Hf64 : nth l fs 0 < 64) by (apply all_lt64_nth; assumption).
-  pose proof (lo_lt_64 l Hl) as Hlo64.
-  (* what happens to the index vector and the address when this entry is skipped *)
-  assert (Hafter : forall s2 a2, (limit < a2 \/ a2 = next_at l addr) ->
-            tbl_post l addr tas tbase
-              (let i := (s_remain mystep - 1)%nat in
-               let idx := zero_below (s_idx mystep) i in
-               let v := wadd (nthN idx i) 1 in
-               let mystep' := set_idx mystep (set_nth idx i v) in
-               if 2^(nth l fs 0) <=? v then (NOTPRESENT, s2, a2)
-               else lm_loop readmem m rec k limit (2^(nth l fs 0)) (N.ones (lo fs l)) mystep' mystep' a2)).
-  { intros s2 a2 Ha2. rewrite Hr. replace (S l - 1)%nat with l by lia. cbv zeta.
-    rewrite nthN_zero_below. rewrite Nat.ltb_irrefl. rewrite Hidx, split_fields_nth by exact Hl.
-    pose proof (field_lt fs l addr) as Hfl.
-    assert (Hv : wadd (field fs l addr) 1 = field fs l addr + 1).
-    { apply wadd_small. rewrite W_pow.
-      apply N.lt_le_trans with (2^(nth l fs 0) + 1); [lia|].
-      pose proof (pow2_lt_mono (nth l fs 0) 64 Hf64). lia. }
-    rewrite Hv.
-    assert (HS : lo fs (S l) = lo fs l + nth l fs 0) by now apply lo_S.
-    destruct (N.leb_spec (2^(nth l fs 0)) (field fs l addr + 1)) as [Hfull|Hroom].
-    - (* last entry of the table *)
-      cbn [tbl_post]. destruct Ha2 as [Hlim | ->]; [left; exact Hlim|]. right.
-      unfold next_at. f_equal. rewrite HS, N.pow_add_r.
-      assert (Hfield : field fs l addr = 2^(nth l fs 0) - 1) by lia.
-      unfold field, bits in Hfield.
-      pose proof (N.div_mod (addr / 2^(lo fs l)) (2^(nth l fs 0)) (pow2_nz _)) as Hdm.
-      rewrite <- N.div_div by apply pow2_nz.
-      pose proof (pow2_pos (nth l fs 0)). pose proof (pow2_pos (lo fs l)). nia.
-    - destruct Ha2 as [Hlim | ->].
-      + (* beyond the limit: the next iteration stops at once *)
-        destruct k as [|k']; [exact I|]. cbn [lm_loop].
-        destruct (N.leb_spec a2 limit); [lia|]. cbn [negb tbl_post]. left. exact Hlim.
-      + assert (Hnw : (addr / 2^(lo fs l) + 1) * 2^(lo fs l) < 2^64).
-        { assert (Hq : addr / 2^(lo fs l) + 1 <= 2^(64 - lo fs l)).
-          { assert (addr / 2^(lo fs l) < 2^(64 - lo fs l)); [|lia].
-            apply N.div_lt_upper_bound; [apply pow2_nz|]. rewrite <- N.pow_add_r.
-            replace (lo fs l + (64 - lo fs l)) with 64 by lia. exact Ha. }
-          (* equality would make the field maximal *)
-          destruct (N.eq_dec (addr / 2^(lo fs l) + 1) (2^(64 - lo fs l))) as [Heq|Hne].
-          - exfalso. unfold field, bits in Hroom.
-            assert (Hdiv : (2^(nth l fs 0) | 2^(64 - lo fs l))).
-            { exists (2^(64 - lo fs l - nth l fs 0)). rewrite <- N.pow_add_r. f_equal.
-              pose proof (lo_le_total fs (S l)). lia. }
-            destruct Hdiv as [c Hc].
-            assert (Hm : (addr / 2^(lo fs l) + 1) mod 2^(nth l fs 0) = 0)
-              by (rewrite Heq, Hc; apply N.mod_mul, pow2_nz).
-            rewrite <- N.add_mod_idemp_l in Hm by apply pow2_nz.
-            rewrite N.mod_small in Hm by exact Hroom. rewrite N.add_1_r in Hm. now apply N.neq_succ_0 in Hm.
-          - replace (2^64) with (2^(64 - lo fs l) * 2^(lo fs l))
-              by (rewrite <- N.pow_add_r; f_equal; lia).
-            apply N.mul_lt_mono_pos_r; [apply pow2_pos|lia]. }
-        assert (Hnext : next_at l addr = (addr / 2^(lo fs l) + 1) * 2^(lo fs l))
-          by (unfold next_at; now apply w_small').
-        rewrite Hnext.
-        set (a2 := (addr / 2^(lo fs l) + 1) * 2^(lo fs l)) in *.
-        assert (Hat2 : at_level a2 l (set_idx mystep
-                         (set_nth (zero_below (split_fields fs addr) l) l (field fs l addr + 1)))).
-        { split; [exact Hr|]. split; [|exact Hes]. cbn [set_idx s_idx].
-          symmetry. apply split_next_entry; [exact Hl|exact Hroom]. }
-        specialize (IH _ a2 Hat2 Has Hbs Hnw).
-        (* same table: the fields above [l] did not change *)
-        assert (Hsame : a2 / 2^(lo fs (S l)) = addr / 2^(lo fs (S l))).
-        { rewrite HS. unfold a2. apply div_next_above; [exact Hroom|lia]. }
-        destruct (lm_loop readmem m rec k limit _ _ _ _ a2) as [[st s'] r].
-        destruct st; try exact I.
-        * destruct IH as (H0 & H1 & H2 & H3 & H4 & H5). repeat split; auto; [|now rewrite H3].
-          assert (addr < a2); [|lia]. unfold a2.
-          pose proof (N.div_mod addr (2^(lo fs l)) (pow2_nz _)).
-          pose proof (N.mod_upper_bound addr (2^(lo fs l)) (pow2_nz _)). nia.
-        * destruct IH as [H1|H1]; [left; exact H1|right]. rewrite H1. unfold next_at. now rewrite Hsame. }
+  pose proof (after_up (unmapped l tas tbase)
+                (fun s' r => s_as s' = tgt /\ W r l tas tbase = (OK, Some (tgt, s_base s')))
+                l (fun ms a => lm_loop readmem m rec k limit (2^(nth l fs 0)) (N.ones (lo fs l)) ms ms a)
+                mystep addr Hl1 Hl Hat Ha Hle) as Hafter.
+  cbv beta in Hafter.
+  assert (Hafter' := Hafter
+            (fun ms a2 H1 H2 H3 H4 => IH ms a2 H1 (eq_trans H2 Has) (eq_trans H3 Hbs) H4)).
+  clear Hafter. rename Hafter' into Hafter.
+  assert (Hg : forall st a2, limit < a2 ->
+            match lm_loop readmem m rec k limit (2^(nth l fs 0)) (N.ones (lo fs l)) st st a2 with
+            | (NOTPRESENT, _, a2') => a2' = a2 | (OK, _, _) => False | _ => True end).
+  { intros st a2 Hlim. destruct k; [exact I|]. cbn [lm_loop].
+    destruct (N.leb_spec a2 limit); [lia|]. reflexivity. }
+  specialize (Hafter Hg). clear Hg.
   (* the entry itself *)
   pose proof (step_at_level addr l mystep Hl Hat) as Hstep.
   destruct l as [|l']; [lia|]. rewrite Has, Hbs in Hstep.
+  pose proof (skip_entry (S l') addr) as Hskip.
   destruct (rd_entry readmem af mask tas (w (tbase + field fs (S l') addr * af_ptesz af))) as [pte|e] eqn:Erd.
   2:{ destruct Hstep as (s' & Hn & He). rewrite Hn. destruct e; try exact I; try contradiction.
       (* a failing read that reports "not present" is treated like an absent entry by the C code *)
-      apply Hafter. right. unfold next_at, wadd. apply next_entry_addr. }
+      apply Hafter; [rewrite <- W_pow; apply wadd_lt|apply Hskip|right; apply Hskip|].
+      intros a H1 H2 H3. apply (W_entry_np a addr (S l')); [lia|exact H3|left; exact Erd]. }
   destruct (af_decode af tgt fs (S l') pte addr) as [ta tb|b sz|ta tb sh| |] eqn:Edec.
   - (* table *)
     destruct Hstep as (s1 & Hn & Hat1 & Has1 & Hbs1). rewrite Hn.
@@ -383,30 +690,130 @@ Proof.
     + (* the table maps pages: one more step *)
       cbn [Nat.leb].
       pose proof (step_at_level addr 0 s1 ltac:(lia) Hat1) as Hfin. cbn beta iota in Hfin.
-      rewrite Hfin. cbn [tbl_post set_elemsz set_as s_as s_base].
+      rewrite Hfin. cbn [gpost set_elemsz set_as s_as s_base].
       repeat split; auto; try lia.
       cbn [arch_levels]. rewrite Erd, Edec. cbn [arch_levels]. now rewrite Hbs1.
     + replace (S (S l'') <=? 1)%nat with false by reflexivity.
       specialize (Hrec s1 addr ta tb ltac:(lia)).
       replace (S (S l'') - 1)%nat with (S l'') in Hrec by lia.
-      specialize (Hrec Hat1 Has1 Hbs1 Ha).
+      specialize (Hrec Hat1 Has1 Hbs1 Ha). unfold tbl_post in Hrec.
       destruct (rec s1 addr) as [[st2 s2] addr2].
       destruct st2; try exact I.
-      * destruct Hrec as (H0 & H1 & H2 & H3 & H4 & H5). cbn [tbl_post]. repeat split; auto.
-        -- assert (Hlo : lo fs (S (S l'')) <= lo fs (S (S (S l'')))) by (apply lo_mono; lia).
-           replace (lo fs (S (S (S l'')))) with (lo fs (S (S l'')) + (lo fs (S (S (S l''))) - lo fs (S (S l'')))) by lia.
-           rewrite !N.pow_add_r, <- !N.div_div by apply pow2_nz. now rewrite H3.
+      * destruct Hrec as (H0 & H1 & H2 & H3 & (H4 & H5) & H6). cbn [gpost].
+        split; [exact H0|]. split; [exact H1|]. split; [exact H2|].
+        split; [apply span_up; [lia|exact H3]|]. split; [split; [exact H4|]|].
         -- rewrite (W_entry addr2 addr (S (S l'')) tas tbase ltac:(lia) H3 pte Erd ta tb Edec).
            replace (S (S l'') - 1)%nat with (S l'') by lia. exact H5.
-      * apply Hafter. exact Hrec.
+        -- intros a Ha1 Ha2.
+           assert (Hsp : a / 2^(lo fs (S (S l''))) = addr / 2^(lo fs (S (S l'')))).
+           { apply (div_sandwich _ addr a addr2); lia. }
+           unfold unmapped.
+           rewrite (W_entry a addr (S (S l'')) tas tbase ltac:(lia) Hsp pte Erd ta tb Edec).
+           replace (S (S l'') - 1)%nat with (S l'') by lia. apply H6; assumption.
+      * destruct Hrec as (Hw & H0 & H1 & H2). apply Hafter; [exact Hw|exact H0|exact H1|].
+        intros a Ha1 Ha2 Ha3. unfold unmapped.
+        rewrite (W_entry a addr (S (S l'')) tas tbase ltac:(lia) Ha3 pte Erd ta tb Edec).
+        replace (S (S l'') - 1)%nat with (S l'') by lia. apply H2; assumption.
   - (* leaf (huge page) *)
     destruct Hstep as (s1 & Hn & Hr1 & Hes1 & Hlen1 & Hfin). rewrite Hn, Hr1. cbn [Nat.leb].
     destruct (final_step s1 Hr1 Hlen1) as (s2 & Hn2 & Has2 & Hbs2). rewrite Hn2.
-    cbn [tbl_post]. repeat split; auto; try lia.
+    cbn [gpost]. repeat split; auto; try lia.
     cbn [arch_levels]. rewrite Erd, Edec. rewrite Hbs2, Hes1, N.mul_1_r, Hfin. reflexivity.
   - contradiction.
   - destruct Hstep as (s1 & Hn). rewrite Hn.
-    apply Hafter. right. unfold next_at, wadd. apply next_entry_addr.
+    apply Hafter; [rewrite <- W_pow; apply wadd_lt|apply Hskip|right; apply Hskip|].
+    intros a H1 H2 H3. apply (W_entry_np a addr (S l')); [lia|exact H3|right; exists pte; auto].
+  - destruct Hstep as (s1 & Hn). rewrite Hn. exact I.
+Qed.
+
+Lemma W_entry_leaf r a l tas tbase : (1 <= l)%nat ->
+  r / 2^(lo fs l) = a / 2^(lo fs l) ->
+  forall pte, rd_entry readmem af mask tas (w (tbase + field fs l a * af_ptesz af)) = RdOk pte ->
+  forall b sz, af_decode af tgt fs l pte a = DLeaf b sz ->
+  mapped l tas tbase r.
+Proof.
+  intros Hl Hra pte Hrd b sz Hdec. destruct l as [|l']; [lia|]. unfold mapped. cbn [arch_levels].
+  rewrite (same_fields_above (S l') r a (S l')) by (auto; lia).
+  rewrite Hrd. rewrite (Hdecva _ _ r a), Hdec. eexists. reflexivity.
+Qed.
+
+Lemma lu_loop_spec (rec : step -> N -> scanres) l tas tbase :
+  (1 <= l)%nat -> (l < length fs)%nat ->
+  (forall s1 a ta tb, (2 <= l)%nat -> at_level a (l - 1) s1 -> s_as s1 = ta -> s_base s1 = tb -> a < 2^64 ->
+     tbl_post_u (l - 1) a ta tb (rec s1 a)) ->
+  forall k mystep addr,
+  at_level addr l mystep -> s_as mystep = tas -> s_base mystep = tbase -> addr < 2^64 ->
+  tbl_post_u l addr tas tbase
+    (lu_loop readmem m rec k limit (2^(nth l fs 0)) (N.ones (lo fs l)) mystep mystep addr).
+Proof.
+  intros Hl1 Hl Hrec. induction k as [|k IH]; intros mystep addr Hat Has Hbs Ha; [exact I|].
+  cbn [lu_loop]. unfold tbl_post_u.
+  destruct (N.leb_spec addr limit) as [Hle|Hgt]; cbn [negb].
+  2:{ cbn [gpost]. split; [exact Ha|]. split; [pose proof (lt_next_nat (S l) addr); lia|]. split; [left; exact Hgt|].
+      intros a H1 H2. lia. }
+  pose proof Hat as (Hr & Hidx & Hes).
+  pose proof (after_up (mapped l tas tbase) (fun _ r => unmapped l tas tbase r)
+                l (fun ms a => lu_loop readmem m rec k limit (2^(nth l fs 0)) (N.ones (lo fs l)) ms ms a)
+                mystep addr Hl1 Hl Hat Ha Hle) as Hafter.
+  cbv beta in Hafter.
+  assert (Hafter' := Hafter
+            (fun ms a2 H1 H2 H3 H4 => IH ms a2 H1 (eq_trans H2 Has) (eq_trans H3 Hbs) H4)).
+  clear Hafter. rename Hafter' into Hafter.
+  assert (Hg : forall st a2, limit < a2 ->
+            match lu_loop readmem m rec k limit (2^(nth l fs 0)) (N.ones (lo fs l)) st st a2 with
+            | (NOTPRESENT, _, a2') => a2' = a2 | (OK, _, _) => False | _ => True end).
+  { intros st a2 Hlim. destruct k; [exact I|]. cbn [lu_loop].
+    destruct (N.leb_spec a2 limit); [lia|]. reflexivity. }
+  specialize (Hafter Hg). clear Hg.
+  assert (Hhere : unmapped l tas tbase addr -> forall s1, gpost (mapped l tas tbase)
+                    (fun _ r => unmapped l tas tbase r) l addr (OK, s1, addr)).
+  { intros Hu s1. cbn [gpost]. repeat split; auto; try lia. }
+  pose proof (step_at_level addr l mystep Hl Hat) as Hstep.
+  destruct l as [|l']; [lia|]. rewrite Has, Hbs in Hstep.
+  pose proof (skip_entry (S l') addr) as Hskip.
+  destruct (rd_entry readmem af mask tas (w (tbase + field fs (S l') addr * af_ptesz af))) as [pte|e] eqn:Erd.
+  2:{ destruct Hstep as (s' & Hn & He). rewrite Hn. destruct e; try exact I; try contradiction.
+      apply Hhere. apply (W_entry_np addr addr (S l')); [lia|reflexivity|left; exact Erd]. }
+  destruct (af_decode af tgt fs (S l') pte addr) as [ta tb|b sz|ta tb sh| |] eqn:Edec.
+  - (* table *)
+    destruct Hstep as (s1 & Hn & Hat1 & Has1 & Hbs1). rewrite Hn.
+    pose proof Hat1 as (Hr1 & Hidx1 & Hes1). rewrite Hr1.
+    destruct l' as [|l''].
+    + (* a table of pages: every address of the entry is mapped *)
+      cbn [Nat.ltb Nat.leb].
+      apply Hafter; [rewrite <- W_pow; apply wadd_lt|apply Hskip|right; apply Hskip|].
+      intros a H1 H2 H3. unfold mapped.
+      rewrite (W_entry a addr 1 tas tbase ltac:(lia) H3 pte Erd ta tb Edec).
+      cbn [Nat.sub arch_levels]. eexists. reflexivity.
+    + replace (1 <? S (S l''))%nat with true by reflexivity.
+      specialize (Hrec s1 addr ta tb ltac:(lia)).
+      replace (S (S l'') - 1)%nat with (S l'') in Hrec by lia.
+      specialize (Hrec Hat1 Has1 Hbs1 Ha). unfold tbl_post_u in Hrec.
+      destruct (rec s1 addr) as [[st2 s2] addr2].
+      destruct st2; try exact I.
+      * destruct Hrec as (H0 & H1 & H2 & H3 & H5 & H6). cbn [gpost].
+        split; [exact H0|]. split; [exact H1|]. split; [exact H2|].
+        split; [apply span_up; [lia|exact H3]|]. split.
+        -- unfold unmapped.
+           rewrite (W_entry addr2 addr (S (S l'')) tas tbase ltac:(lia) H3 pte Erd ta tb Edec).
+           replace (S (S l'') - 1)%nat with (S l'') by lia. exact H5.
+        -- intros a Ha1 Ha2.
+           assert (Hsp : a / 2^(lo fs (S (S l''))) = addr / 2^(lo fs (S (S l'')))).
+           { apply (div_sandwich _ addr a addr2); lia. }
+           unfold mapped.
+           rewrite (W_entry a addr (S (S l'')) tas tbase ltac:(lia) Hsp pte Erd ta tb Edec).
+           replace (S (S l'') - 1)%nat with (S l'') by lia. apply H6; assumption.
+      * destruct Hrec as (Hw & H0 & H1 & H2). apply Hafter; [exact Hw|exact H0|exact H1|].
+        intros a Ha1 Ha2 Ha3. unfold mapped.
+        rewrite (W_entry a addr (S (S l'')) tas tbase ltac:(lia) Ha3 pte Erd ta tb Edec).
+        replace (S (S l'') - 1)%nat with (S l'') by lia. apply H2; assumption.
+  - (* leaf (huge page): every address of the entry is mapped *)
+    destruct Hstep as (s1 & Hn & Hr1 & Hes1 & Hlen1 & Hfin). rewrite Hn, Hr1. cbn [Nat.ltb Nat.leb].
+    apply Hafter; [rewrite <- W_pow; apply wadd_lt|apply Hskip|right; apply Hskip|].
+    intros a H1 H2 H3. apply (W_entry_leaf a addr (S l') tas tbase ltac:(lia) H3 pte Erd b sz Edec).
+  - contradiction.
+  - destruct Hstep as (s1 & Hn). rewrite Hn.
+    apply Hhere. apply (W_entry_np addr addr (S l')); [lia|reflexivity|right; exists pte; auto].
   - destruct Hstep as (s1 & Hn). rewrite Hn. exact I.
 Qed.
 
@@ -419,7 +826,7 @@ Proof.
   rewrite wshl_small; rewrite N.mul_1_l; [reflexivity|now apply pow2_lt_mono].
 Qed.
 
-Theorem lowest_mapped_tbl_sound : forall lf l s addr tas tbase,
+Theorem lowest_mapped_tbl_spec : forall lf l s addr tas tbase,
   (1 <= l)%nat -> (l < length fs)%nat ->
   at_level addr l s -> s_as s = tas -> s_base s = tbase -> addr < 2^64 ->
   tbl_post l addr tas tbase (lowest_mapped_tbl readmem m pf lf limit s addr).
@@ -428,7 +835,20 @@ Proof.
   cbn [lowest_mapped_tbl]. pose proof Hat as (Hr & _ & _). rewrite Hr.
   rewrite pf_table_size_spec by exact Hl.
   rewrite pf_table_mask_spec by (try assumption; try lia; now apply lo_lt_64).
-  apply lm_loop_sound; try assumption.
+  apply lm_loop_spec; try assumption.
+  intros s1 a ta tb Hl2 Hat1 Has1 Hbs1 Ha1. apply IH; try assumption; lia.
+Qed.
+
+Theorem lowest_unmapped_tbl_spec : forall lf l s addr tas tbase,
+  (1 <= l)%nat -> (l < length fs)%nat ->
+  at_level addr l s -> s_as s = tas -> s_base s = tbase -> addr < 2^64 ->
+  tbl_post_u l addr tas tbase (lowest_unmapped_tbl readmem m pf lf limit s addr).
+Proof.
+  induction lf as [|lf IH]; intros l s addr tas tbase Hl1 Hl Hat Has Hbs Ha; [exact I|].
+  cbn [lowest_unmapped_tbl]. pose proof Hat as (Hr & _ & _). rewrite Hr.
+  rewrite pf_table_size_spec by exact Hl.
+  rewrite pf_table_mask_spec by (try assumption; try lia; now apply lo_lt_64).
+  apply lu_loop_spec; try assumption.
   intros s1 a ta tb Hl2 Hat1 Has1 Hbs1 Ha1. apply IH; try assumption; lia.
 Qed.
 
@@ -457,6 +877,7 @@ Proof.
     destruct (_ =? 0); [discriminate|]. destruct (64 <=? _); [discriminate|].
     destruct (_ =? _); intro H; [now injection H as <-|discriminate]. }
   unfold first_step_pgt.
+  destruct (pf_max_fields (pte_format pf) <? length fs)%nat; [discriminate|].
   destruct (first_step_pgt_generic ras root pf _ a) as [st0 s0] eqn:Eg.
   assert (Hok : st0 = OK -> at_level a (length fs - 1) s0 /\ s_as s0 = ras /\ s_base s0 = root).
   { intro Hst. apply Hshape. now apply (Hgen st0 s0). }
@@ -467,9 +888,121 @@ Proof.
      first [apply Hu in H | apply Hs in H]; subst s; now apply Hok).
 Qed.
 
-(** ** [lowest_mapped] is sound: an address it returns lies in the range, the
-    architectural walk of the table tree maps it, and the returned step holds
-    its translation *)
+Lemma generic_not_np a s0 st s' :
+  first_step_pgt_generic ras root pf s0 a = (st, s') -> st <> NOTPRESENT.
+Proof.
+  unfold first_step_pgt_generic.
+  repeat match goal with
+         | |- context [match ?x with _ => _ end] => destruct x
+         end; intro H; injection H as <- _; discriminate.
+Qed.
+
+Lemma launch_not_np a st s : addrxlat_launch m (init_step a) a = (st, s) -> st <> NOTPRESENT.
+Proof.
+  unfold addrxlat_launch, first_step. cbn [m_kind]. unfold first_step_pgt.
+  destruct (pf_max_fields (pte_format pf) <? length fs)%nat; [intro H; injection H as <- _; discriminate|].
+  destruct (first_step_pgt_generic ras root pf (init_step a) a) as [st0 s0] eqn:Eg.
+  pose proof (generic_not_np _ _ _ _ Eg) as Hg.
+  assert (Hu : forall x st1 y, step_check_uaddr pf x = (st1, y) -> st1 <> NOTPRESENT).
+  { intros x st1 y. unfold step_check_uaddr. destruct (_ =? 0); intro H; injection H as <- _; discriminate. }
+  assert (Hs : forall x st1 y, step_check_saddr pf x = (st1, y) -> st1 <> NOTPRESENT).
+  { intros x st1 y. unfold step_check_saddr.
+    repeat match goal with
+           | |- context [match ?x with _ => _ end] => destruct x
+           end; intro H; injection H as <- _; discriminate. }
+  destruct (pte_format pf); intro H;
+    try (injection H as <- _; first [exact Hg | discriminate]);
+    (destruct st0; first [now apply Hu in H | now apply Hs in H
+                         | exfalso; apply Hg; reflexivity
+                         | injection H as <- _; discriminate]).
+Qed.
+
+(** ** The specifications of [lowest_mapped] and [lowest_unmapped]
+
+    The scan starts at the first address of the page of [addr0] and covers the
+    addresses up to [limit] that the root table spans (those that agree with
+    [addr0] above the translated bits). *)
+Definition page_down (a : N) : N := a / 2^(nth 0 fs 0) * 2^(nth 0 fs 0).
+Notation top := (length fs - 1)%nat.
+
+Definition scan_post (P : N -> Prop) (Q : step -> N -> Prop) (addr0 : N) (res : scanres) : Prop :=
+  match res with
+  | (OK, s', r) =>
+      page_down addr0 <= r /\ r <= limit /\ r < 2^64 /\ r / 2^(total fs) = addr0 / 2^(total fs) /\
+      Q s' r /\ (forall a, page_down addr0 <= a -> a < r -> P a)
+  | (NOTPRESENT, _, a2) =>
+      (* where the scan stopped: beyond the limit, or at the end of what the root table spans *)
+      a2 < 2^64 /\ (limit < a2 \/ a2 = next_at (length fs) (page_down addr0)) /\
+      (forall a, page_down addr0 <= a -> a <= limit -> a / 2^(total fs) = addr0 / 2^(total fs) -> P a)
+  | _ => True
+  end.
+
+Lemma page_down_span addr0 : page_down addr0 / 2^(total fs) = addr0 / 2^(total fs).
+Proof.
+  unfold page_down.
+  assert (Hle : nth 0 fs 0 <= total fs) by (rewrite <- lo_1; apply lo_le_total).
+  replace (total fs) with (nth 0 fs 0 + (total fs - nth 0 fs 0)) by lia.
+  rewrite !N.pow_add_r, <- !N.div_div by apply pow2_nz.
+  now rewrite N.div_mul by apply pow2_nz.
+Qed.
+
+Lemma gpost_top P Q a0 addr0 res : a0 = page_down addr0 ->
+  gpost P Q top a0 res -> scan_post P Q addr0 res.
+Proof.
+  intros -> H. destruct res as [[st s'] r]. destruct st; try exact I; cbn [gpost scan_post] in *;
+    replace (S top) with (length fs) in H by lia; rewrite lo_length, page_down_span in H.
+  - exact H.
+  - destruct H as (Hw & _ & H). exact (conj Hw H).
+Qed.
+
+(** [lowest_mapped]: the least mapped address: the answer is in the range, the
+    architectural walk of the table tree maps it (and the returned step holds
+    its translation), and the walk finds every address before it not present;
+    "not present" means that no address of the range is mapped *)
+Theorem lowest_mapped_spec lf addr0 :
+  pte_size (pte_format pf) = Some (af_ptesz af) ->
+  addr0 < 2^64 ->
+  scan_post (unmapped top ras root)
+            (fun s' r => s_as s' = tgt /\ W r top ras root = (OK, Some (tgt, s_base s')))
+            addr0 (lowest_mapped readmem m pf lf addr0 limit).
+Proof.
+  intros Hps Ha0. unfold lowest_mapped.
+  assert (Hf0 : nth 0 fs 0 < 64) by (apply all_lt64_nth; [assumption|lia]).
+  rewrite pf_page_mask_spec by exact Hf0.
+  set (a := N.ldiff addr0 (N.ones (nth 0 fs 0))) in *.
+  assert (Ha : a < 2^64) by (unfold a; now apply ldiff_lt).
+  assert (Hpd : a = page_down addr0) by (unfold a, page_down; now rewrite ldiff_ones_div).
+  destruct (addrxlat_launch m (init_step a) a) as [st s] eqn:El.
+  pose proof (launch_not_np a st s El) as Hnp.
+  destruct st; try exact I; try contradiction.
+  destruct (launch_shape a s Hps El) as (Hat & Has & Hbs).
+  apply (gpost_top _ _ a); [exact Hpd|].
+  exact (lowest_mapped_tbl_spec lf top s a ras root ltac:(lia) ltac:(lia) Hat Has Hbs Ha).
+Qed.
+
+(** [lowest_unmapped]: the least address that is not mapped; "not present"
+    means that every address of the range is mapped *)
+Theorem lowest_unmapped_spec lf addr0 :
+  pte_size (pte_format pf) = Some (af_ptesz af) ->
+  addr0 < 2^64 ->
+  scan_post (mapped top ras root) (fun _ r => unmapped top ras root r)
+            addr0 (lowest_unmapped readmem m pf lf addr0 limit).
+Proof.
+  intros Hps Ha0. unfold lowest_unmapped.
+  assert (Hf0 : nth 0 fs 0 < 64) by (apply all_lt64_nth; [assumption|lia]).
+  rewrite pf_page_mask_spec by exact Hf0.
+  set (a := N.ldiff addr0 (N.ones (nth 0 fs 0))) in *.
+  assert (Ha : a < 2^64) by (unfold a; now apply ldiff_lt).
+  assert (Hpd : a = page_down addr0) by (unfold a, page_down; now rewrite ldiff_ones_div).
+  destruct (addrxlat_launch m (init_step a) a) as [st s] eqn:El.
+  pose proof (launch_not_np a st s El) as Hnp.
+  destruct st; try exact I; try contradiction.
+  destruct (launch_shape a s Hps El) as (Hat & Has & Hbs).
+  apply (gpost_top _ _ a); [exact Hpd|].
+  exact (lowest_unmapped_tbl_spec lf top s a ras root ltac:(lia) ltac:(lia) Hat Has Hbs Ha).
+Qed.
+
+(** the earlier, weaker form *)
 Theorem lowest_mapped_sound lf addr0 s' r :
   pte_size (pte_format pf) = Some (af_ptesz af) ->
   addr0 < 2^64 ->
@@ -477,32 +1010,616 @@ Theorem lowest_mapped_sound lf addr0 s' r :
   addr0 / 2^(nth 0 fs 0) * 2^(nth 0 fs 0) <= r /\ r <= limit /\ r < 2^64 /\ r / 2^(total fs) = addr0 / 2^(total fs) /\
   W r (length fs - 1)%nat ras root = (OK, Some (tgt, s_base s')) /\ s_as s' = tgt.
 Proof.
-  intros Hps Ha0 Hlm. unfold lowest_mapped in Hlm.
-  assert (Hf0 : nth 0 fs 0 < 64) by (apply all_lt64_nth; [assumption|lia]).
-  rewrite pf_page_mask_spec in Hlm by exact Hf0.
-  set (a := N.ldiff addr0 (N.ones (nth 0 fs 0))) in *.
-  assert (Ha : a < 2^64) by (unfold a; now apply ldiff_lt).
-  destruct (addrxlat_launch m (init_step a) a) as [st s] eqn:El.
-  destruct st; try (injection Hlm as Hst _ _; discriminate).
-  destruct (launch_shape a s Hps El) as (Hat & Has & Hbs).
-  pose proof (lowest_mapped_tbl_sound lf (length fs - 1) s a ras root ltac:(lia) ltac:(lia) Hat Has Hbs Ha) as Hpost.
-  rewrite Hlm in Hpost. cbn [tbl_post] in Hpost.
-  destruct Hpost as (H0 & H1 & H2 & H3 & H4 & H5).
-  replace (S (length fs - 1)) with (length fs) in H3 by lia. rewrite lo_length in H3.
-  split; [unfold a in H0; now rewrite ldiff_ones_div in H0|].
-  repeat split; auto.
-  rewrite H3. unfold a. rewrite ldiff_ones_div.
-  assert (Hle : nth 0 fs 0 <= total fs).
-  { rewrite <- lo_1. apply lo_le_total. }
+  intros Hps Ha0 Hlm. pose proof (lowest_mapped_spec lf addr0 Hps Ha0) as H. rewrite Hlm in H.
+  cbn [scan_post] in H. destruct H as (H0 & H1 & H2 & H3 & (H4 & H5) & _). auto 7.
+Qed.
+
+(** ** [highest_mapped]: the same, downwards *)
+
+(** first address of the span of the level-[l] entry that contains [a], and
+    the address before it as the C code computes it *)
+Definition es (l : nat) (a : N) : N := a / 2^(lo fs l) * 2^(lo fs l).
+Definition prev_at (l : nat) (a : N) : N := wsub (es l a) 1.
+
+Definition gpost_d (P : N -> Prop) (Q : step -> N -> Prop) (l : nat) (a0 : N) (res : scanres) : Prop :=
+  match res with
+  | (OK, s', r) =>
+      limit <= r /\ r <= a0 /\ r / 2^(lo fs (S l)) = a0 / 2^(lo fs (S l)) /\
+      Q s' r /\ (forall a, r < a -> a <= a0 -> P a)
+  | (NOTPRESENT, _, a2) =>
+      a2 < 2^64 /\ (a2 < limit \/ a2 = prev_at (S l) a0) /\ es (S l) a0 <= a2 + 1 /\
+      (forall a, limit <= a -> a <= a0 -> a / 2^(lo fs (S l)) = a0 / 2^(lo fs (S l)) -> P a)
+  | _ => True
+  end.
+
+Definition tbl_post_d (l : nat) (a0 : N) (tas : aspace) (tbase : N) : scanres -> Prop :=
+  gpost_d (unmapped l tas tbase)
+          (fun s' r => s_as s' = tgt /\ W r l tas tbase = (OK, Some (tgt, s_base s'))) l a0.
+
+Lemma es_le l a : es l a <= a.
+Proof. unfold es. rewrite N.mul_comm. apply N.mul_div_le, pow2_nz. Qed.
+
+Lemma in_entry_above_start l a x : es l a <= x -> x <= a -> x / 2^(lo fs l) = a / 2^(lo fs l).
+Proof.
+  intros H1 H2. apply N.le_antisymm.
+  - apply N.div_le_mono; [apply pow2_nz|exact H2].
+  - apply (N.div_le_mono _ _ (2^(lo fs l)) (pow2_nz _)) in H1. unfold es in H1.
+    rewrite N.div_mul in H1 by apply pow2_nz. exact H1.
+Qed.
+
+Lemma es_up l a : (l < length fs)%nat -> es (S l) a <= es l a.
+Proof.
+  intro Hl. unfold es. rewrite lo_S by exact Hl. rewrite N.pow_add_r, <- N.div_div by apply pow2_nz.
+  set (q := a / 2^(lo fs l)).
+  pose proof (N.mul_div_le q (2^(nth l fs 0)) (pow2_nz _)).
+  set (d := q / 2^(nth l fs 0)) in *. set (B := 2^(nth l fs 0)) in *. set (L := 2^(lo fs l)) in *. nia.
+Qed.
+
+Lemma after_down (P : N -> Prop) (Q : step -> N -> Prop) l (cont : step -> N -> scanres) mystep addr :
+  (1 <= l)%nat -> (l < length fs)%nat ->
+  at_level addr l mystep -> addr < 2^64 -> limit <= addr ->
+  (forall mystep' a2, at_level a2 l mystep' -> s_as mystep' = s_as mystep -> s_base mystep' = s_base mystep ->
+     a2 < 2^64 -> gpost_d P Q l a2 (cont mystep' a2)) ->
+  (forall st a2, a2 < limit ->
+     match cont st a2 with (NOTPRESENT, _, a2') => a2' = a2 | (OK, _, _) => False | _ => True end) ->
+  forall s2 a2, a2 < 2^64 -> es l addr <= a2 + 1 -> (a2 < limit \/ a2 = prev_at l addr) ->
+    (forall a, limit <= a -> a <= addr -> a / 2^(lo fs l) = addr / 2^(lo fs l) -> P a) ->
+    gpost_d P Q l addr
+      (let i := (s_remain mystep - 1)%nat in
+       match ones_below fs (s_idx mystep) i with
+       | None => (BADSHIFT, s2, a2)
+       | Some idx =>
+         let v := nthN idx i in
+         let mystep' := set_idx mystep (set_nth idx i (wsub v 1)) in
+         if v =? 0 then (NOTPRESENT, s2, a2) else cont mystep' a2
+       end).
+Proof.
+  intros Hl1 Hl Hat Ha Hle IH Hguard.
+  pose proof Hat as (Hr & Hidx & Hes).
+  assert (Hf64 : nth l fs 0 < 64) by (apply all_lt64_nth; assumption).
+  assert (HS : lo fs (S l) = lo fs l + nth l fs 0) by now apply lo_S.
+  intros s2 a2 Hw2 Hb2 Ha2 HE. rewrite Hr. replace (S l - 1)%nat with l by lia. cbv zeta.
+  rewrite Hidx.
+  destruct (ones_below_spec l fs (split_fields fs addr) Hlt ltac:(lia)) as (idx' & Eob & Hlen' & Hnth').
+  rewrite split_fields_length in Hlen', Hnth'.
+  rewrite Eob.
+  assert (Hv : nthN idx' l = field fs l addr).
+  { rewrite Hnth', Nat.ltb_irrefl. cbn [andb]. apply split_fields_nth; exact Hl. }
+  rewrite Hv.
+  destruct (N.eqb_spec (field fs l addr) 0) as [Hz|Hnz].
+  - (* first entry of the table *)
+    assert (Hes_eq : es l addr = es (S l) addr).
+    { unfold es. rewrite HS, N.pow_add_r. unfold field, bits in Hz.
+      pose proof (N.div_mod (addr / 2^(lo fs l)) (2^(nth l fs 0)) (pow2_nz _)) as D.
+      rewrite Hz, N.add_0_r in D. rewrite <- N.div_div by apply pow2_nz.
+      set (q := addr / 2^(lo fs l)) in *. set (d := q / 2^(nth l fs 0)) in *.
+      set (B := 2^(nth l fs 0)) in *. set (L := 2^(lo fs l)) in *. rewrite D. nia. }
+    cbn [gpost_d]. split; [exact Hw2|]. split.
+    { destruct Ha2 as [Hlim | ->]; [left; exact Hlim|right]. unfold prev_at. now rewrite Hes_eq. }
+    split; [rewrite <- Hes_eq; exact Hb2|].
+    intros a H1 H2 H3. apply HE; try assumption.
+    apply in_entry_above_start; [|exact H2].
+    rewrite Hes_eq. replace (es (S l) addr) with (es (S l) a) by (unfold es; now rewrite H3). apply es_le.
+  - (* there is a previous entry *)
+    assert (Hf1 : 1 <= field fs l addr) by lia.
+    pose proof (field_ge1_div _ _ _ Hf1) as Hq1.
+    assert (Hes1 : 1 <= es l addr) by (unfold es; pose proof (pow2_pos (lo fs l)); nia).
+    pose proof (es_le l addr) as Hesle.
+    assert (Hv1 : wsub (field fs l addr) 1 = field fs l addr - 1).
+    { apply wsub_le; [exact Hf1|]. rewrite W_pow. pose proof (field_lt fs l addr).
+      pose proof (pow2_lt_mono (nth l fs 0) 64 Hf64). lia. }
+    rewrite Hv1.
+    pose proof (es_up l addr Hl) as Hup.
+    destruct Ha2 as [Hlim | ->].
+    + match goal with |- gpost_d _ _ _ _ (cont ?st a2) => specialize (Hguard st a2 Hlim);
+        destruct (cont st a2) as [[st' s'] r] end.
+      destruct st'; try exact I; try contradiction. subst r. cbn [gpost_d]. split; [exact Hw2|].
+      split; [left; exact Hlim|]. split; [lia|].
+      intros a H1 H2 H3. apply HE; try assumption. apply in_entry_above_start; lia.
+    + assert (Hprev : prev_at l addr = es l addr - 1).
+      { unfold prev_at. apply wsub_le; [exact Hes1|]. rewrite W_pow. lia. }
+      rewrite Hprev. set (a2 := es l addr - 1) in *.
+      assert (Hat2 : at_level a2 l (set_idx mystep (set_nth idx' l (field fs l addr - 1)))).
+      { split; [exact Hr|]. split; [|exact Hes]. cbn [set_idx s_idx].
+        symmetry. unfold a2, es. apply split_prev_entry; assumption. }
+      specialize (IH _ a2 Hat2 eq_refl eq_refl ltac:(lia)).
+      assert (Hsame : a2 / 2^(lo fs (S l)) = addr / 2^(lo fs (S l))).
+      { rewrite HS. unfold a2, es. apply div_prev_above; [exact Hf1|lia]. }
+      assert (Hes_s : es (S l) a2 = es (S l) addr) by (unfold es; now rewrite Hsame).
+      destruct (cont _ a2) as [[st s'] r].
+      destruct st; try exact I.
+      * destruct IH as (H0 & H1 & H3 & H4 & H6).
+        split; [exact H0|]. split; [lia|]. split; [now rewrite H3|]. split; [exact H4|].
+        intros a Ha1 Ha2'. destruct (N.le_gt_cases a a2) as [Hb|Hb].
+        -- apply H6; assumption.
+        -- apply HE; try lia. apply in_entry_above_start; lia.
+      * destruct IH as (Hw & H0 & H1 & H2). split; [exact Hw|].
+        split; [destruct H0 as [H0|H0]; [left; exact H0|right]; rewrite H0; unfold prev_at; now rewrite Hes_s|].
+        split; [now rewrite <- Hes_s|].
+        intros a Ha1 Ha2' Ha3. destruct (N.le_gt_cases a a2) as [Hb|Hb].
+        -- apply H2; try assumption. now rewrite Hsame.
+        -- apply HE; try assumption. apply in_entry_above_start; lia.
+Qed.
+
+Lemma skip_entry_down l addr : addr < 2^64 ->
+  wsub (N.ldiff addr (N.ones (lo fs l))) 1 < 2^64 /\
+  es l addr <= wsub (N.ldiff addr (N.ones (lo fs l))) 1 + 1 /\
+  wsub (N.ldiff addr (N.ones (lo fs l))) 1 = prev_at l addr.
+Proof.
+  intro Ha. rewrite ldiff_ones_div. fold (es l addr).
+  split; [rewrite <- W_pow; apply wsub_lt|]. split; [|reflexivity].
+  destruct (N.eq_dec (es l addr) 0) as [-> | Hne]; [lia|].
+  pose proof (es_le l addr). rewrite wsub_le; [lia|lia|rewrite W_pow; lia].
+Qed.
+
+Lemma hm_loop_spec (rec : step -> N -> scanres) l tas tbase :
+  (1 <= l)%nat -> (l < length fs)%nat ->
+  (forall s1 a ta tb, (2 <= l)%nat -> at_level a (l - 1) s1 -> s_as s1 = ta -> s_base s1 = tb -> a < 2^64 ->
+     tbl_post_d (l - 1) a ta tb (rec s1 a)) ->
+  forall k mystep addr,
+  at_level addr l mystep -> s_as mystep = tas -> s_base mystep = tbase -> addr < 2^64 ->
+  tbl_post_d l addr tas tbase
+    (hm_loop readmem m pf rec k limit (N.ones (lo fs l)) mystep mystep addr).
+Proof.
+  intros Hl1 Hl Hrec. induction k as [|k IH]; intros mystep addr Hat Has Hbs Ha; [exact I|].
+  cbn [hm_loop]. unfold tbl_post_d.
+  destruct (N.leb_spec limit addr) as [Hle|Hgt]; cbn [negb].
+  2:{ cbn [gpost_d]. split; [exact Ha|]. split; [left; exact Hgt|].
+      split; [pose proof (es_le (S l) addr); lia|]. intros a H1 H2. lia. }
+  pose proof Hat as (Hr & Hidx & Hes).
+  pose proof (after_down (unmapped l tas tbase)
+                (fun s' r => s_as s' = tgt /\ W r l tas tbase = (OK, Some (tgt, s_base s')))
+                l (fun ms a => hm_loop readmem m pf rec k limit (N.ones (lo fs l)) ms ms a)
+                mystep addr Hl1 Hl Hat Ha Hle) as Hafter.
+  cbv beta in Hafter.
+  assert (Hafter' := Hafter
+            (fun ms a2 H1 H2 H3 H4 => IH ms a2 H1 (eq_trans H2 Has) (eq_trans H3 Hbs) H4)).
+  clear Hafter. rename Hafter' into Hafter.
+  assert (Hg : forall st a2, a2 < limit ->
+            match hm_loop readmem m pf rec k limit (N.ones (lo fs l)) st st a2 with
+            | (NOTPRESENT, _, a2') => a2' = a2 | (OK, _, _) => False | _ => True end).
+  { intros st a2 Hlim. destruct k; [exact I|]. cbn [hm_loop].
+    destruct (N.leb_spec limit a2); [lia|]. reflexivity. }
+  specialize (Hafter Hg). clear Hg.
+  pose proof (step_at_level addr l mystep Hl Hat) as Hstep.
+  destruct l as [|l']; [lia|]. rewrite Has, Hbs in Hstep.
+  destruct (skip_entry_down (S l') addr Ha) as (Hsk1 & Hsk2 & Hsk3).
+  destruct (rd_entry readmem af mask tas (w (tbase + field fs (S l') addr * af_ptesz af))) as [pte|e] eqn:Erd.
+  2:{ destruct Hstep as (s' & Hn & He). rewrite Hn. destruct e; try exact I; try contradiction.
+      apply Hafter; [exact Hsk1|exact Hsk2|right; exact Hsk3|].
+      intros a H1 H2 H3. apply (W_entry_np a addr (S l')); [lia|exact H3|left; exact Erd]. }
+  destruct (af_decode af tgt fs (S l') pte addr) as [ta tb|b sz|ta tb sh| |] eqn:Edec.
+  - (* table *)
+    destruct Hstep as (s1 & Hn & Hat1 & Has1 & Hbs1). rewrite Hn.
+    pose proof Hat1 as (Hr1 & Hidx1 & Hes1). rewrite Hr1.
+    destruct l' as [|l''].
+    + cbn [Nat.leb].
+      pose proof (step_at_level addr 0 s1 ltac:(lia) Hat1) as Hfin. cbn beta iota in Hfin.
+      rewrite Hfin. cbn [gpost_d set_elemsz set_as s_as s_base].
+      repeat split; auto; try lia.
+      cbn [arch_levels]. rewrite Erd, Edec. cbn [arch_levels]. now rewrite Hbs1.
+    + replace (S (S l'') <=? 1)%nat with false by reflexivity.
+      specialize (Hrec s1 addr ta tb ltac:(lia)).
+      replace (S (S l'') - 1)%nat with (S l'') in Hrec by lia.
+      specialize (Hrec Hat1 Has1 Hbs1 Ha). unfold tbl_post_d in Hrec.
+      destruct (rec s1 addr) as [[st2 s2] addr2].
+      destruct st2; try exact I.
+      * destruct Hrec as (H0 & H1 & H3 & (H4 & H5) & H6). cbn [gpost_d].
+        split; [exact H0|]. split; [exact H1|].
+        split; [apply span_up; [lia|exact H3]|]. split; [split; [exact H4|]|].
+        -- rewrite (W_entry addr2 addr (S (S l'')) tas tbase ltac:(lia) H3 pte Erd ta tb Edec).
+           replace (S (S l'') - 1)%nat with (S l'') by lia. exact H5.
+        -- intros a Ha1 Ha2.
+           assert (Hsp : a / 2^(lo fs (S (S l''))) = addr / 2^(lo fs (S (S l'')))).
+           { rewrite <- H3. apply (div_sandwich _ addr2 a addr); lia. }
+           unfold unmapped.
+           rewrite (W_entry a addr (S (S l'')) tas tbase ltac:(lia) Hsp pte Erd ta tb Edec).
+           replace (S (S l'') - 1)%nat with (S l'') by lia. apply H6; assumption.
+      * destruct Hrec as (Hw & H0 & H1 & H2). apply Hafter; [exact Hw|exact H1|exact H0|].
+        intros a Ha1 Ha2 Ha3. unfold unmapped.
+        rewrite (W_entry a addr (S (S l'')) tas tbase ltac:(lia) Ha3 pte Erd ta tb Edec).
+        replace (S (S l'') - 1)%nat with (S l'') by lia. apply H2; assumption.
+  - (* leaf (huge page) *)
+    destruct Hstep as (s1 & Hn & Hr1 & Hes1 & Hlen1 & Hfin). rewrite Hn, Hr1. cbn [Nat.leb].
+    destruct (final_step s1 Hr1 Hlen1) as (s2 & Hn2 & Has2 & Hbs2). rewrite Hn2.
+    cbn [gpost_d]. repeat split; auto; try lia.
+    cbn [arch_levels]. rewrite Erd, Edec. rewrite Hbs2, Hes1, N.mul_1_r, Hfin. reflexivity.
+  - contradiction.
+  - destruct Hstep as (s1 & Hn). rewrite Hn.
+    apply Hafter; [exact Hsk1|exact Hsk2|right; exact Hsk3|].
+    intros a H1 H2 H3. apply (W_entry_np a addr (S l')); [lia|exact H3|right; exists pte; auto].
+  - destruct Hstep as (s1 & Hn). rewrite Hn. exact I.
+Qed.
+
+Theorem highest_mapped_tbl_spec : forall lf l s addr tas tbase,
+  (1 <= l)%nat -> (l < length fs)%nat ->
+  at_level addr l s -> s_as s = tas -> s_base s = tbase -> addr < 2^64 ->
+  tbl_post_d l addr tas tbase (highest_mapped_tbl readmem m pf lf limit s addr).
+Proof.
+  induction lf as [|lf IH]; intros l s addr tas tbase Hl1 Hl Hat Has Hbs Ha; [exact I|].
+  cbn [highest_mapped_tbl]. pose proof Hat as (Hr & _ & _). rewrite Hr.
+  rewrite pf_table_mask_spec by (try assumption; try lia; now apply lo_lt_64).
+  apply hm_loop_spec; try assumption.
+  intros s1 a ta tb Hl2 Hat1 Has1 Hbs1 Ha1. apply IH; try assumption; lia.
+Qed.
+
+(** [highest_mapped] starts at the last address of the page of [addr0] and
+    scans down to [limit] *)
+Definition page_up (a : N) : N := page_down a + (2^(nth 0 fs 0) - 1).
+
+Lemma page_up_div a : page_up a / 2^(nth 0 fs 0) = a / 2^(nth 0 fs 0).
+Proof.
+  unfold page_up, page_down. pose proof (pow2_pos (nth 0 fs 0)).
+  symmetry. apply N.div_unique with (r := 2^(nth 0 fs 0) - 1); lia.
+Qed.
+
+Lemma page_up_span a : page_up a / 2^(total fs) = a / 2^(total fs).
+Proof.
+  assert (Hle : nth 0 fs 0 <= total fs) by (rewrite <- lo_1; apply lo_le_total).
   replace (total fs) with (nth 0 fs 0 + (total fs - nth 0 fs 0)) by lia.
-  rewrite !N.pow_add_r, <- !N.div_div by apply pow2_nz.
-  now rewrite N.div_mul by apply pow2_nz.
+  rewrite !N.pow_add_r, <- !N.div_div by apply pow2_nz. now rewrite page_up_div.
+Qed.
+
+Lemma page_up_lt a : nth 0 fs 0 < 64 -> a < 2^64 -> page_up a < 2^64.
+Proof.
+  intros Hp Ha. unfold page_up, page_down.
+  assert (Hq : a / 2^(nth 0 fs 0) < 2^(64 - nth 0 fs 0)).
+  { apply N.div_lt_upper_bound; [apply pow2_nz|]. rewrite <- N.pow_add_r.
+    replace (nth 0 fs 0 + (64 - nth 0 fs 0)) with 64 by lia. exact Ha. }
+  replace (2^64) with (2^(64 - nth 0 fs 0) * 2^(nth 0 fs 0)) by (rewrite <- N.pow_add_r; f_equal; lia).
+  pose proof (pow2_pos (nth 0 fs 0)).
+  set (q := a / 2^(nth 0 fs 0)) in *. set (P := 2^(nth 0 fs 0)) in *. set (M := 2^(64 - nth 0 fs 0)) in *. nia.
+Qed.
+
+Definition scan_post_d (P : N -> Prop) (Q : step -> N -> Prop) (addr0 : N) (res : scanres) : Prop :=
+  match res with
+  | (OK, s', r) =>
+      limit <= r /\ r <= page_up addr0 /\ r / 2^(total fs) = addr0 / 2^(total fs) /\
+      Q s' r /\ (forall a, r < a -> a <= page_up addr0 -> P a)
+  | (NOTPRESENT, _, a2) =>
+      a2 < 2^64 /\ (a2 < limit \/ a2 = prev_at (length fs) (page_up addr0)) /\
+      (forall a, limit <= a -> a <= page_up addr0 -> a / 2^(total fs) = addr0 / 2^(total fs) -> P a)
+  | _ => True
+  end.
+
+(** [highest_mapped]: the greatest mapped address of the range *)
+Theorem highest_mapped_spec lf addr0 :
+  pte_size (pte_format pf) = Some (af_ptesz af) ->
+  addr0 < 2^64 ->
+  scan_post_d (unmapped top ras root)
+              (fun s' r => s_as s' = tgt /\ W r top ras root = (OK, Some (tgt, s_base s')))
+              addr0 (highest_mapped readmem m pf lf addr0 limit).
+Proof.
+  intros Hps Ha0. unfold highest_mapped.
+  assert (Hf0 : nth 0 fs 0 < 64) by (apply all_lt64_nth; [assumption|lia]).
+  rewrite pf_page_mask_spec by exact Hf0.
+  set (a := N.lor addr0 (N.ones (nth 0 fs 0))) in *.
+  assert (Hpu : a = page_up addr0).
+  { unfold a, page_up, page_down. rewrite lor_ones_div, N.ones_equiv.
+    pose proof (pow2_pos (nth 0 fs 0)). lia. }
+  assert (Ha : a < 2^64) by (rewrite Hpu; now apply page_up_lt).
+  clearbody a. subst a. set (a := page_up addr0) in *.
+  destruct (addrxlat_launch m (init_step a) a) as [st s] eqn:El.
+  pose proof (launch_not_np a st s El) as Hnp.
+  destruct st; try exact I; try contradiction.
+  destruct (launch_shape a s Hps El) as (Hat & Has & Hbs).
+  pose proof (highest_mapped_tbl_spec lf top s a ras root ltac:(lia) ltac:(lia) Hat Has Hbs Ha) as H.
+  unfold tbl_post_d in H.
+  destruct (highest_mapped_tbl readmem m pf lf limit s a) as [[st' s'] r]. subst a.
+  destruct st'; try exact I; cbn [gpost_d scan_post_d] in *;
+    replace (S top) with (length fs) in H by lia.
+  - rewrite lo_length, page_up_span in H. exact H.
+  - destruct H as (Hw & Hd & _ & H). rewrite lo_length, page_up_span in H. auto.
+Qed.
+
+Theorem highest_mapped_greatest lf addr0 st s' r :
+  pte_size (pte_format pf) = Some (af_ptesz af) -> addr0 < 2^64 ->
+  highest_mapped readmem m pf lf addr0 limit = (st, s', r) ->
+  let start := addr0 / 2^(nth 0 fs 0) * 2^(nth 0 fs 0) + (2^(nth 0 fs 0) - 1) in
+  (st = OK ->
+     limit <= r /\ r <= start /\ r / 2^(total fs) = addr0 / 2^(total fs) /\
+     s_as s' = tgt /\ W r top ras root = (OK, Some (tgt, s_base s')) /\
+     forall a, r < a -> a <= start -> W a top ras root = (NOTPRESENT, None)) /\
+  (st = NOTPRESENT ->
+     forall a, limit <= a -> a <= start -> a / 2^(total fs) = addr0 / 2^(total fs) ->
+               W a top ras root = (NOTPRESENT, None)).
+Proof.
+  intros Hps Ha H. pose proof (highest_mapped_spec lf addr0 Hps Ha) as Hs. rewrite H in Hs.
+  cbv zeta. split; intros ->; cbn [scan_post_d] in Hs.
+  - destruct Hs as (H0 & H1 & H3 & (H4 & H5) & H6). repeat split; assumption.
+  - exact (proj2 (proj2 Hs)).
+Qed.
+
+(** the two specifications spelled out *)
+Theorem lowest_mapped_least lf addr0 st s' r :
+  pte_size (pte_format pf) = Some (af_ptesz af) -> addr0 < 2^64 ->
+  lowest_mapped readmem m pf lf addr0 limit = (st, s', r) ->
+  let start := addr0 / 2^(nth 0 fs 0) * 2^(nth 0 fs 0) in
+  (st = OK ->
+     start <= r /\ r <= limit /\ r < 2^64 /\ r / 2^(total fs) = addr0 / 2^(total fs) /\
+     s_as s' = tgt /\ W r top ras root = (OK, Some (tgt, s_base s')) /\
+     forall a, start <= a -> a < r -> W a top ras root = (NOTPRESENT, None)) /\
+  (st = NOTPRESENT ->
+     forall a, start <= a -> a <= limit -> a / 2^(total fs) = addr0 / 2^(total fs) ->
+               W a top ras root = (NOTPRESENT, None)).
+Proof.
+  intros Hps Ha H. pose proof (lowest_mapped_spec lf addr0 Hps Ha) as Hs. rewrite H in Hs.
+  cbv zeta. split; intros ->; cbn [scan_post] in Hs.
+  - destruct Hs as (H0 & H1 & H2 & H3 & (H4 & H5) & H6). repeat split; assumption.
+  - exact (proj2 (proj2 Hs)).
+Qed.
+
+Theorem lowest_unmapped_least lf addr0 st s' r :
+  pte_size (pte_format pf) = Some (af_ptesz af) -> addr0 < 2^64 ->
+  lowest_unmapped readmem m pf lf addr0 limit = (st, s', r) ->
+  let start := addr0 / 2^(nth 0 fs 0) * 2^(nth 0 fs 0) in
+  (st = OK ->
+     start <= r /\ r <= limit /\ r < 2^64 /\ r / 2^(total fs) = addr0 / 2^(total fs) /\
+     W r top ras root = (NOTPRESENT, None) /\
+     forall a, start <= a -> a < r -> exists p, W a top ras root = (OK, Some (tgt, p))) /\
+  (st = NOTPRESENT ->
+     forall a, start <= a -> a <= limit -> a / 2^(total fs) = addr0 / 2^(total fs) ->
+               exists p, W a top ras root = (OK, Some (tgt, p))).
+Proof.
+  intros Hps Ha H. pose proof (lowest_unmapped_spec lf addr0 Hps Ha) as Hs. rewrite H in Hs.
+  cbv zeta. split; intros ->; cbn [scan_post] in Hs.
+  - destruct Hs as (H0 & H1 & H2 & H3 & H4 & H6). repeat split; assumption.
+  - exact (proj2 (proj2 Hs)).
+Qed.
+
+(** ** [highest_linear]
+
+    In terms of the architectural walk, the loop does this: from [from] on it
+    looks for the next mapped run [n, u) (the least mapped address [n], then the
+    least unmapped address [u] after it); when the first address of the run is
+    mapped with the offset [off], the answer becomes [u - 1] and the search goes
+    on from [u]; else, or when nothing more is mapped up to the limit, the
+    answer stands.  ("Assume that the whole range is linear": only the first
+    address of every run is tested.) *)
+Variable kv2kphys : N -> status * N.
+Variable off : N.
+Hypothesis Hps : pte_size (pte_format pf) = Some (af_ptesz af).
+
+Notation Mp := (mapped top ras root).
+Notation Up := (unmapped top ras root).
+
+Definition least_mapped (from n : N) : Prop :=
+  page_down from <= n /\ n <= limit /\ n < 2^64 /\ n / 2^(total fs) = from / 2^(total fs) /\
+  Mp n /\ forall a, page_down from <= a -> a < n -> Up a.
+Definition none_mapped (from : N) : Prop :=
+  forall a, page_down from <= a -> a <= limit -> a / 2^(total fs) = from / 2^(total fs) -> Up a.
+Definition run_end (n u : N) : Prop :=
+  (page_down n <= u /\ u <= limit /\ u / 2^(total fs) = n / 2^(total fs) /\ Up u /\
+   forall a, page_down n <= a -> a < u -> Mp a) \/
+  ((limit < u \/ u = next_at (length fs) (page_down n)) /\
+   forall a, page_down n <= a -> a <= limit -> a / 2^(total fs) = n / 2^(total fs) -> Mp a).
+
+(** [lin_runs from ans ret e]: the loop entered with [nextaddr = from],
+    [*addr = ans], [ret] may return [(OK, e)] *)
+Inductive lin_runs : N -> N -> status -> N -> Prop :=
+| LR_none from ans : none_mapped from -> lin_runs from ans OK ans
+| LR_other from ans n p :
+    least_mapped from n -> kv2kphys n = (OK, p) -> wsub p n <> off -> lin_runs from ans OK ans
+| LR_run from ans ret n p u e :
+    least_mapped from n -> kv2kphys n = (OK, p) -> wsub p n = off ->
+    run_end n u -> u < 2^64 -> lin_runs u (wsub u 1) OK e -> lin_runs from ans ret e.
+
+Lemma hl_loop_spec lf : forall fuel from ans ret e, from < 2^64 ->
+  hl_loop readmem m pf kv2kphys fuel lf limit off from ans ret = (OK, e) ->
+  lin_runs from ans ret e.
+Proof.
+  induction fuel as [|fuel IH]; intros from ans ret e Hfrom H; [discriminate|].
+  cbn [hl_loop] in H.
+  pose proof (lowest_mapped_spec lf from Hps Hfrom) as Hlm.
+  destruct (lowest_mapped readmem m pf lf from limit) as [[st s'] n].
+  destruct st; try discriminate.
+  - cbn [scan_post] in Hlm. destruct Hlm as (H0 & H1 & H2 & H3 & (H4 & H5) & H6).
+    assert (Hleast : least_mapped from n).
+    { repeat split; auto. eexists; exact H5. }
+    destruct (kv2kphys n) as [st2 p] eqn:Ekv. destruct st2; try discriminate.
+    destruct (N.eqb_spec (wsub p n) off) as [Hoff|Hoff]; cbn [negb] in H.
+    + pose proof (lowest_unmapped_spec lf n Hps H2) as Hlu.
+      destruct (lowest_unmapped readmem m pf lf n limit) as [[st3 s3] u].
+      destruct st3; try discriminate.
+      * cbn [scan_post] in Hlu. destruct Hlu as (U0 & U1 & U2 & U3 & U4 & U5).
+        apply (LR_run from ans ret n p u e Hleast Ekv Hoff); [left; auto|exact U2|].
+        apply IH; assumption.
+      * cbn [scan_post] in Hlu. destruct Hlu as (U0 & U1 & U2).
+        apply (LR_run from ans ret n p u e Hleast Ekv Hoff); [right; auto|exact U0|].
+        apply IH; assumption.
+    + injection H as Hr He. subst ret e. exact (LR_other from ans n p Hleast Ekv Hoff).
+  - injection H as Hr He. subst ret e. apply LR_none. cbn [scan_post] in Hlm. exact (proj2 (proj2 Hlm)).
+Qed.
+
+Theorem highest_linear_spec fuel lf addr e : addr < 2^64 ->
+  highest_linear readmem m pf kv2kphys fuel lf addr limit off = (OK, e) ->
+  lin_runs addr addr NOTPRESENT e.
+Proof. intros Ha H. unfold highest_linear in H. now apply hl_loop_spec in H. Qed.
+
+Lemma mapped_not_unmapped a : Mp a -> Up a -> False.
+Proof. intros (p & H1) H2. unfold unmapped in H2. rewrite H1 in H2. discriminate. Qed.
+
+(** so on a tree that maps exactly one run [base, top_] of the range (whole
+    pages), an [OK] answer is the end of the run, and its first address is mapped
+    with the offset asked for: the scan finds the whole region *)
+Theorem highest_linear_single_run fuel lf base top_ e :
+  page_down base = base -> page_down (top_ + 1) = top_ + 1 ->
+  base <= top_ -> top_ < limit -> limit < 2^64 ->
+  (top_ + 1) / 2^(total fs) = base / 2^(total fs) ->
+  (forall a, base <= a -> a <= top_ -> Mp a) ->
+  (forall a, top_ < a -> a <= limit -> Up a) ->
+  highest_linear readmem m pf kv2kphys fuel lf base limit off = (OK, e) ->
+  e = top_ /\ exists p, kv2kphys base = (OK, p) /\ wsub p base = off.
+Proof.
+  intros Hb Ht Hbt Htl Hl64 Hspan Hm Hu H.
+  apply highest_linear_spec in H; [|lia].
+  inversion H as [| |from ans ret n p u e' Hleast Ekv Hoff Hend Hu64 Hrest]; subst.
+  destruct Hleast as (L0 & L1 & L2 & L3 & L4 & L5). rewrite Hb in L0, L5.
+  assert (n = base).
+  { destruct (N.eq_dec n base) as [|Hne]; [assumption|exfalso].
+    apply (mapped_not_unmapped base); [apply Hm; lia|apply L5; lia]. }
+  subst n. unfold run_end in Hend. rewrite Hb in Hend.
+  assert (u = top_ + 1).
+  { destruct Hend as [(E0 & E1 & E2 & E3 & E4)|(E0 & E1)].
+    - destruct (N.le_gt_cases u top_) as [Hle|Hgt].
+      { exfalso. apply (mapped_not_unmapped u); [apply Hm; lia|exact E3]. }
+      destruct (N.le_gt_cases u (top_ + 1)) as [Hle1|Hgt1]; [lia|exfalso].
+      apply (mapped_not_unmapped (top_ + 1)); [apply E4; lia|apply Hu; lia].
+    - exfalso. apply (mapped_not_unmapped (top_ + 1)); [apply E1; try lia; exact Hspan|apply Hu; lia]. }
+  subst u. split; [|exists p; auto].
+  assert (Hans : wsub (top_ + 1) 1 = top_).
+  { rewrite wsub_le; [lia|lia|rewrite W_pow; lia]. }
+  rewrite Hans in Hrest.
+  inversion Hrest as [| |from ans ret n q u e' Hleast' _ _ _ _ _]; subst; try reflexivity.
+  exfalso. destruct Hleast' as (L0' & L1' & L2' & L3' & L4' & L5'). rewrite Ht in L0'.
+  apply (mapped_not_unmapped n); [exact L4'|apply Hu; lia].
+Qed.
+
+(** [lowest_mapped] finds the start of the first mapped run *)
+Theorem lowest_mapped_finds lf first0 base s' r :
+  first0 < 2^64 -> page_down first0 <= base ->
+  (forall a, page_down first0 <= a -> a < base -> Up a) -> Mp base ->
+  lowest_mapped readmem m pf lf first0 limit = (OK, s', r) -> r = base.
+Proof.
+  intros H0 Hle Hu Hm H. pose proof (lowest_mapped_spec lf first0 Hps H0) as Hs. rewrite H in Hs.
+  cbn [scan_post] in Hs. destruct Hs as (S0 & S1 & S2 & S3 & (S4 & S5) & S6).
+  destruct (N.lt_trichotomy r base) as [Hlt'|[Heq|Hgt]]; [exfalso|exact Heq|exfalso].
+  - apply (mapped_not_unmapped r); [eexists; exact S5|apply Hu; lia].
+  - apply (mapped_not_unmapped base); [exact Hm|apply S6; lia].
+Qed.
+
+(** ** All four together *)
+Theorem scan_specs lf fuel addr0 :
+  addr0 < 2^64 ->
+  let lo_start := addr0 / 2^(nth 0 fs 0) * 2^(nth 0 fs 0) in
+  let hi_start := lo_start + (2^(nth 0 fs 0) - 1) in
+  let same_span a := a / 2^(total fs) = addr0 / 2^(total fs) in
+  let Mapped a := exists p, W a top ras root = (OK, Some (tgt, p)) in
+  let Unmapped a := W a top ras root = (NOTPRESENT, None) in
+  (* lowest_mapped: the least mapped address in [lo_start, limit] *)
+  (forall st s' r, lowest_mapped readmem m pf lf addr0 limit = (st, s', r) ->
+     (st = OK -> lo_start <= r /\ r <= limit /\ r < 2^64 /\ same_span r /\
+                 s_as s' = tgt /\ W r top ras root = (OK, Some (tgt, s_base s')) /\
+                 forall a, lo_start <= a -> a < r -> Unmapped a) /\
+     (st = NOTPRESENT -> forall a, lo_start <= a -> a <= limit -> same_span a -> Unmapped a)) /\
+  (* lowest_unmapped: the least unmapped address in [lo_start, limit] *)
+  (forall st s' r, lowest_unmapped readmem m pf lf addr0 limit = (st, s', r) ->
+     (st = OK -> lo_start <= r /\ r <= limit /\ r < 2^64 /\ same_span r /\ Unmapped r /\
+                 forall a, lo_start <= a -> a < r -> Mapped a) /\
+     (st = NOTPRESENT -> forall a, lo_start <= a -> a <= limit -> same_span a -> Mapped a)) /\
+  (* highest_mapped: the greatest mapped address in [limit, hi_start] *)
+  (forall st s' r, highest_mapped readmem m pf lf addr0 limit = (st, s', r) ->
+     (st = OK -> limit <= r /\ r <= hi_start /\ same_span r /\
+                 s_as s' = tgt /\ W r top ras root = (OK, Some (tgt, s_base s')) /\
+                 forall a, r < a -> a <= hi_start -> Unmapped a) /\
+     (st = NOTPRESENT -> forall a, limit <= a -> a <= hi_start -> same_span a -> Unmapped a)) /\
+  (* highest_linear: the end of the last of the consecutive mapped runs whose
+     first address is mapped with the offset [off] *)
+  (forall e, highest_linear readmem m pf kv2kphys fuel lf addr0 limit off = (OK, e) ->
+     lin_runs addr0 addr0 NOTPRESENT e).
+Proof.
+  intro Ha. cbv zeta. split; [|split; [|split]].
+  - intros st s' r H. exact (lowest_mapped_least lf addr0 st s' r Hps Ha H).
+  - intros st s' r H. exact (lowest_unmapped_least lf addr0 st s' r Hps Ha H).
+  - intros st s' r H. exact (highest_mapped_greatest lf addr0 st s' r Hps Ha H).
+  - intros e H. exact (highest_linear_spec fuel lf addr0 e Ha H).
 Qed.
 
 End ScanSound.
 
 (** * Instance: x86-64 (4- and 5-level) *)
 From KdV Require Import Xlat.FmtX86.
+
+Ltac x86_64_side Hform Hfmt :=
+  try assumption;
+  try first
+  [ (intro va; now apply sim_x86_64)
+  | (destruct Hform as [-> | ->]; reflexivity)
+  | (destruct Hform as [-> | ->]; cbn; lia)
+  | (intros xl xe xva xa xb xsh; cbn [af_decode af_x86_64]; unfold dec_x86_64;
+     destruct (negb (bit 0 xe)); [discriminate|];
+     destruct xl as [|[|[|[|xl]]]]; try discriminate; destruct (bit 7 xe); discriminate)
+  | (intros xl xe xva xva'; reflexivity)
+  | (intros j Hj; destruct Hform as [Hf | Hf]; rewrite Hf in *; cbn [length] in Hj;
+     do 7 (destruct j as [|j]; [cbn; lia|]); lia)
+  | (now rewrite Hfmt) ].
+
+Notation x86_mapped readmem tgt mask pf ras root :=
+  (mapped readmem af_x86_64 tgt mask pf (length (fieldsz pf) - 1) ras root).
+Notation x86_unmapped readmem tgt mask pf ras root :=
+  (unmapped readmem af_x86_64 tgt mask pf (length (fieldsz pf) - 1) ras root).
+
+Theorem x86_64_lowest_mapped_spec readmem tgt mask pf ras root limit lf addr0 :
+  pte_format pf = PTE_X86_64 -> x86_64_form (fieldsz pf) ->
+  (forall a x, readmem a x <> RdErr OK) -> addr0 < 2^64 ->
+  scan_post pf limit (x86_unmapped readmem tgt mask pf ras root)
+    (fun s' r => s_as s' = tgt /\
+       arch_levels readmem af_x86_64 tgt mask (fieldsz pf) r (length (fieldsz pf) - 1) ras root
+         = (OK, Some (tgt, s_base s')))
+    addr0 (lowest_mapped readmem {| m_kind := KPgt ras root mask pf; m_target := tgt |} pf lf addr0 limit).
+Proof.
+  intros Hfmt Hform Herr Ha.
+  apply (lowest_mapped_spec readmem af_x86_64 tgt mask pf ras root); x86_64_side Hform Hfmt.
+Qed.
+
+Theorem x86_64_lowest_unmapped_spec readmem tgt mask pf ras root limit lf addr0 :
+  pte_format pf = PTE_X86_64 -> x86_64_form (fieldsz pf) ->
+  (forall a x, readmem a x <> RdErr OK) -> addr0 < 2^64 ->
+  scan_post pf limit (x86_mapped readmem tgt mask pf ras root)
+    (fun _ r => x86_unmapped readmem tgt mask pf ras root r)
+    addr0 (lowest_unmapped readmem {| m_kind := KPgt ras root mask pf; m_target := tgt |} pf lf addr0 limit).
+Proof.
+  intros Hfmt Hform Herr Ha.
+  apply (lowest_unmapped_spec readmem af_x86_64 tgt mask pf ras root); x86_64_side Hform Hfmt.
+Qed.
+
+Theorem x86_64_highest_linear_spec readmem tgt mask pf ras root limit kv2kphys off fuel lf addr e :
+  pte_format pf = PTE_X86_64 -> x86_64_form (fieldsz pf) ->
+  (forall a x, readmem a x <> RdErr OK) -> addr < 2^64 ->
+  highest_linear readmem {| m_kind := KPgt ras root mask pf; m_target := tgt |} pf kv2kphys fuel lf addr limit off
+    = (OK, e) ->
+  lin_runs readmem af_x86_64 tgt mask pf ras root limit kv2kphys off addr addr NOTPRESENT e.
+Proof.
+  intros Hfmt Hform Herr Ha.
+  apply (highest_linear_spec readmem af_x86_64 tgt mask pf ras root); x86_64_side Hform Hfmt.
+Qed.
+
+Theorem x86_64_highest_linear_single_run readmem tgt mask pf ras root limit kv2kphys off fuel lf base top_ e :
+  pte_format pf = PTE_X86_64 -> x86_64_form (fieldsz pf) ->
+  (forall a x, readmem a x <> RdErr OK) ->
+  base mod 2^12 = 0 -> (top_ + 1) mod 2^12 = 0 ->
+  base <= top_ -> top_ < limit -> limit < 2^64 ->
+  (top_ + 1) / 2^(total (fieldsz pf)) = base / 2^(total (fieldsz pf)) ->
+  (forall a, base <= a -> a <= top_ -> x86_mapped readmem tgt mask pf ras root a) ->
+  (forall a, top_ < a -> a <= limit -> x86_unmapped readmem tgt mask pf ras root a) ->
+  highest_linear readmem {| m_kind := KPgt ras root mask pf; m_target := tgt |} pf kv2kphys fuel lf base limit off
+    = (OK, e) ->
+  e = top_ /\ exists p, kv2kphys base = (OK, p) /\ wsub p base = off.
+Proof.
+  intros Hfmt Hform Herr Hb Ht.
+  assert (Hf0 : nth 0 (fieldsz pf) 0 = 12) by (destruct Hform as [-> | ->]; reflexivity).
+  apply (highest_linear_single_run readmem af_x86_64 tgt mask pf ras root); x86_64_side Hform Hfmt;
+    unfold page_down; rewrite Hf0.
+  - pose proof (N.div_mod base (2^12) (pow2_nz _)). lia.
+  - pose proof (N.div_mod (top_ + 1) (2^12) (pow2_nz _)). lia.
+Qed.
+
+Theorem x86_64_lowest_mapped_finds readmem tgt mask pf ras root limit lf first0 base s' r :
+  pte_format pf = PTE_X86_64 -> x86_64_form (fieldsz pf) ->
+  (forall a x, readmem a x <> RdErr OK) ->
+  first0 < 2^64 -> first0 mod 2^12 = 0 -> first0 <= base ->
+  (forall a, first0 <= a -> a < base -> x86_unmapped readmem tgt mask pf ras root a) ->
+  x86_mapped readmem tgt mask pf ras root base ->
+  lowest_mapped readmem {| m_kind := KPgt ras root mask pf; m_target := tgt |} pf lf first0 limit = (OK, s', r) ->
+  r = base.
+Proof.
+  intros Hfmt Hform Herr H0 Hal Hle Hu Hm.
+  assert (Hf0 : nth 0 (fieldsz pf) 0 = 12) by (destruct Hform as [-> | ->]; reflexivity).
+  assert (Hpd : page_down pf first0 = first0).
+  { unfold page_down. rewrite Hf0. pose proof (N.div_mod first0 (2^12) (pow2_nz _)). lia. }
+  apply (lowest_mapped_finds readmem af_x86_64 tgt mask pf ras root); x86_64_side Hform Hfmt;
+    rewrite Hpd; assumption.
+Qed.
 
 Theorem x86_64_lowest_mapped_sound readmem tgt mask pf ras root limit lf addr0 s' r :
   pte_format pf = PTE_X86_64 -> x86_64_form (fieldsz pf) ->
